@@ -21,7 +21,7 @@
        (`tripletPannerE 0`; `tripletPannerE_eps`: with the code's −1e-11 it is `PointSourcePanner.handle`) is
        continuous on the union of its cones, the agreement hypothesis being discharged (`shared_face_agreement`, from
        `triplet_on_edge`) under the explicit combinatorial hypothesis `MeetInSharedFace` on every pair of regions
-       (checked on the real configured panners, exact rational arithmetic, by harness/c12.py);
+       (decided by the kernel on the regenerated tables: `tables_triplet_pairs_meet_in_faces`);
      - the quantitative statement the real code satisfies: `triplet_sliver_bound` (and `_general`): on the sliver
        where two neighbouring triplets both accept (slack 1e-11) their answers differ by at most `C·1e-11`,
        `C = 15/2 · max(|α|, |β|, γ+1) · max(1, 1/γ)` for `w' = α u + β v − γ w`;
@@ -30,911 +30,60 @@
        jumps bounded by `η`), and END TO END for the code's threshold `two_triplet_panner_jump_bound`: the model's
        `PointSourcePanner.handle` on two edge-sharing triplets is continuous up to jumps of `C·1e-11` on every channel.
 
-   PARTIAL: `C12_partial` is the conjunction.  Still NOT proved: (a) that the regions cover the sphere (Qhull's facets:
-   extracted, not re-derived); (b) the GLOBAL "continuous up to jumps of C·1e-11" statement for a whole layout's
-   panner with the code's slack: `panner_jump_bound_of_regions` reduces it to pairwise `η`-agreement on the overlaps,
-   which is proved (`triplet_sliver_bound`) only for edge-sharing triplets in the arrangement (u, v, w)/(u, v, w') (row
-   permutations, and the slivers around a vertex shared by non-adjacent triplets, are not formalised); (c) quads and n-gons inside the pasted
-   panner: closedness of the quad's acceptance set and the quad/n-gon agreement without their extra hypotheses (root
-   selection of np.roots, order of the inner triplets), continuity of the n-gon handler.  These are searched by
-   harness/c12.py (bisection to 1e-9 rad on the real panner), not proved. -/
+   * THE VIRTUAL N-GON AND PANNERS OF TRIPLETS AND N-GONS, slack 0 (proofs in Proofs/C12Ngon.lean):
+     - `VirtualNgon.handleE` / `ngon_handleE_eps`: the n-gon handler with the acceptance slack as a parameter;
+       `ngon_handle_continuousOn`: at slack 0 every output coordinate is continuous on the handler's acceptance set (the
+       union of the cones of the inner triplets, pasted along their shared edges outer vertex – centre; `mix` is
+       continuous because the mixed vector never vanishes) and equals the mixed answer of ANY accepting inner triplet;
+     - `pannerTNE` / `pannerTNE_eps`, `panner_continuousOn_tri_ngon_partial`: `panner_continuousOn_triplets_partial`
+       extended to panners of Triplet AND VirtualNgon regions; combinatorial hypothesis `MeetInOuterFace` for cells of
+       different regions (shared faces consist of real loudspeakers on the same output channels).
+   * TWO TRIPLETS IN ANY ARRANGEMENT, QUANTITATIVELY (proofs in Proofs/C12Faces.lean): `pair_gain_bound`: rows of the two
+     triplets matched by any permutation, zero, one (slivers around a shared VERTEX) or two (a shared edge) shared rows, a
+     separating plane with constants `κ`, `α` ⟹ where both accept with slack `e` matched gains differ by at most
+     `3(3α+1)κe/m`; `pair_out_bound`: for the code's 1e-11 every output channel differs by at most `45(3α+1)κ·1e-11`;
+     `panner_jump_bound_triplets`: the model's `PointSourcePanner.handle` over ANY list of triplets with such pairwise
+     bounds is continuous up to jumps of `η` on every channel (end to end, the code's threshold).
+   * THE REGENERATED TABLES (certificate `Gen/C12_Faces.lean`, checker `Model/PointSourceFaces.lean`, soundness
+     `Faces.faces_sound`): `faces_tables_ok` — the kernel decides, in exact integer arithmetic, that every pair of triplet cells
+     (Triplet regions, inner triplets of the n-gons) of each nominal layout is separated strictly by a plane through its
+     shared positions, and the constants `alpha`, `kappa`.  Hence `tables_triplet_pairs_meet_in_faces` (`MeetInSharedFace` for
+     all pairs of Triplet regions — formerly checked by the harness), `tables_triplet_panner_continuousOn` (slack 0),
+     `tables_triplet_panner_jump_bound` (the code's slack: the Triplet regions of every nominal layout as a panner are
+     continuous up to jumps of `45(3·alpha+1)·kappa·1e-11 < 2.2e-7`), `tables_ngon_continuousOn` (every n-gon of the tables,
+     slack 0).
+   * THE QUAD ON THE CONE OF ITS CORNERS: `continuousOn_of_unique_zero` (tube lemma), `unit_root_unique`,
+     `axis_unique_root`: under the sign certificate of C05 (`QuadSigns`, decided on the tables by `quad_tables_ok`) the pan
+     value `GainCalc.quadRoot` selects is THE root in [0, 1], hence continuous in the direction;
+     `quad_cone_continuousOn_partial`, `quad_handle_continuousOn_cone_partial`, `tables_quad_continuousOn_cone_partial`:
+     `QuadRegion.handle` with the closed-form root selection is continuous on the cone of its four corners (no jump inside a
+     quad's own cell), for every QuadRegion of the ten tables.
+
+   PARTIAL: `C12_partial` is the conjunction.  Still NOT proved: (a) the GLOBAL statement for a whole layout's panner:
+   every nominal layout has QuadRegions, and the quad is only shown continuous on its corner cone — its acceptance set under
+   the code's tolerances (roots in (−1e-10, 1+1e-10), strict sign test) is larger and not closed, and the agreement of a quad
+   with its neighbours on shared edges is proved only given the roots (`quad_edge_agreement`), so quads are not inside the
+   pasted panner; (b) for n-gons the code's slack −1e-11 (the n-gon theorems are at slack 0; the sliver bound is proved for
+   Triplet regions only) and the instantiation of `MeetInOuterFace` (triplet cell against n-gon cell) on the tables — the
+   kernel-checked certificate contains those pairs and `Faces.faces_sound` delivers `MeetInOuterFaceG` for them, but the
+   tables' panner of triplets + n-gons is not assembled; (c) coverage is C05's (`cover_layouts`), not repeated here.  These
+   are searched by harness/c12.py (bisection to 1e-9 rad on the real panner). -/
 import Earverif.Props.C05
 import Earverif.Proofs.C12Paste
+import Earverif.Proofs.C12Ngon
+import Earverif.Proofs.C12Faces
+import Earverif.Gen.C12_Faces
 import Mathlib.Analysis.SpecialFunctions.Pow.Continuity
 import Mathlib.Topology.Algebra.Order.Field
 import Mathlib.Tactic.FinCases
 import Mathlib.Tactic.FunProp
 import Mathlib.Tactic.IntervalCases
+import Mathlib.Topology.Order.Compact
+import Mathlib.Topology.Compactness.Compact
 
 namespace Earverif.PointSource
 
 open Set Filter
-
-/-! ### uniqueness of the gains on an edge -/
-
-/-- the point `s·a + t·b` on the arc between loudspeakers `a` and `b` -/
-noncomputable def edgePoint (s t : ℝ) (a b : Vec3 ℝ) : Vec3 ℝ := add3 (smul3 s a) (smul3 t b)
-
-theorem cross_edge (α β s t : ℝ) (a b : Vec3 ℝ) :
-    cross3 (edgePoint α β a b) (edgePoint s t a b) = smul3 (α * t - β * s) (cross3 a b) := by
-  obtain ⟨a0, a1, a2⟩ := a
-  obtain ⟨b0, b1, b2⟩ := b
-  simp only [edgePoint, cross3, add3, smul3]
-  refine Prod.ext ?_ (Prod.ext ?_ ?_) <;> simp only <;> ring
-
-theorem smul3_eq_zero {k : ℝ} {v : Vec3 ℝ} (h : smul3 k v = (0, 0, 0)) (hv : v ≠ (0, 0, 0)) : k = 0 := by
-  obtain ⟨v0, v1, v2⟩ := v
-  simp only [smul3, Prod.mk.injEq] at h
-  by_contra hk
-  apply hv
-  rcases h with ⟨h0, h1, h2⟩
-  rw [(mul_eq_zero.mp h0).resolve_left hk, (mul_eq_zero.mp h1).resolve_left hk, (mul_eq_zero.mp h2).resolve_left hk]
-
-/-- For independent `a`, `b` and a direction in their open cone there is at most one pair of non-negative gains
-    of unit power whose velocity vector `α·a + β·b` is parallel to the direction. -/
-theorem edge_unique (a b : Vec3 ℝ) (hab : cross3 a b ≠ (0, 0, 0)) (s t : ℝ) (hs : 0 < s) (ht : 0 < t)
-    (α β α' β' : ℝ) (hα : 0 ≤ α) (hβ : 0 ≤ β) (hα' : 0 ≤ α') (hβ' : 0 ≤ β')
-    (h1 : α * α + β * β = 1) (h1' : α' * α' + β' * β' = 1)
-    (hp : cross3 (edgePoint α β a b) (edgePoint s t a b) = (0, 0, 0))
-    (hp' : cross3 (edgePoint α' β' a b) (edgePoint s t a b) = (0, 0, 0)) :
-    α = α' ∧ β = β' := by
-  rw [cross_edge] at hp hp'
-  have e := smul3_eq_zero hp hab
-  have e' := smul3_eq_zero hp' hab
-  have hst : 0 < s * t := mul_pos hs ht
-  have hpar : α * β' = α' * β := by
-    have : s * t * (α * β' - α' * β) = 0 := by
-      have h3 : α * t = β * s := by linarith
-      have h4 : α' * t = β' * s := by linarith
-      calc s * t * (α * β' - α' * β) = (α * t) * (β' * s) - (α' * t) * (β * s) := by ring
-        _ = (β * s) * (α' * t) - (α' * t) * (β * s) := by rw [h3, ← h4]
-        _ = 0 := by ring
-    rcases mul_eq_zero.mp this with h | h
-    · exact absurd h hst.ne'
-    · linarith
-  have hαα : α * α = α' * α' := by
-    calc α * α = α * α * (α' * α' + β' * β') := by rw [h1', mul_one]
-      _ = α * α * (α' * α') + (α * β') * (α * β') := by ring
-      _ = α * α * (α' * α') + (α' * β) * (α' * β) := by rw [hpar]
-      _ = α' * α' * (α * α + β * β) := by ring
-      _ = α' * α' := by rw [h1, mul_one]
-  have hββ : β * β = β' * β' := by linarith
-  exact ⟨(mul_self_inj hα hα').mp hαα, (mul_self_inj hβ hβ').mp hββ⟩
-
-/-- ... and `(s, t)/‖(s, t)‖` is such a pair. -/
-theorem edge_exists (a b : Vec3 ℝ) (s t : ℝ) (hs : 0 < s) (ht : 0 < t) :
-    let r := Real.sqrt (s * s + t * t)
-    0 ≤ s / r ∧ 0 ≤ t / r ∧ s / r * (s / r) + t / r * (t / r) = 1 ∧
-      cross3 (edgePoint (s / r) (t / r) a b) (edgePoint s t a b) = (0, 0, 0) := by
-  intro r
-  have hpos : 0 < s * s + t * t := by positivity
-  have hr : 0 < r := Real.sqrt_pos.mpr hpos
-  have hrr : r * r = s * s + t * t := Real.mul_self_sqrt hpos.le
-  refine ⟨by positivity, by positivity, ?_, ?_⟩
-  · field_simp
-    have : r ^ 2 = s ^ 2 + t ^ 2 := by rw [pow_two, hrr]; ring
-    linarith
-  · rw [cross_edge]
-    have : s / r * t - t / r * s = 0 := by field_simp; ring
-    rw [this]; simp [smul3]
-
-/-! ### a triplet on one of its edges -/
-
-def row (P : Mat3 ℝ) : Fin 3 → Vec3 ℝ
-  | 0 => P.1
-  | 1 => P.2.1
-  | 2 => P.2.2
-
-def coord (v : Vec3 ℝ) : Fin 3 → ℝ
-  | 0 => v.1
-  | 1 => v.2.1
-  | 2 => v.2.2
-
-theorem comb3_edge (P : Mat3 ℝ) (s t : ℝ) :
-    edgePoint s t (row P 0) (row P 1) = comb3 s t 0 P ∧ edgePoint s t (row P 1) (row P 0) = comb3 t s 0 P ∧
-    edgePoint s t (row P 0) (row P 2) = comb3 s 0 t P ∧ edgePoint s t (row P 2) (row P 0) = comb3 t 0 s P ∧
-    edgePoint s t (row P 1) (row P 2) = comb3 0 s t P ∧ edgePoint s t (row P 2) (row P 1) = comb3 0 t s P := by
-  obtain ⟨⟨a0, a1, a2⟩, ⟨b0, b1, b2⟩, ⟨c0, c1, c2⟩⟩ := P
-  simp only [edgePoint, comb3, add3, smul3, row]
-  refine ⟨?_, ?_, ?_, ?_, ?_, ?_⟩ <;> refine Prod.ext ?_ (Prod.ext ?_ ?_) <;> simp only <;> ring
-
-/-- An invertible triplet with loudspeakers `i ≠ j`: every direction `s·P_i + t·P_j` (s, t ≥ 0, not both 0) is
-    accepted and gets the gains `s/√(s²+t²)` on `i`, `t/√(s²+t²)` on `j` and exactly 0 on the third loudspeaker. -/
-theorem triplet_on_edge (P : Mat3 ℝ) (hd : det3 P ≠ 0) (i j : Fin 3) (hij : i ≠ j) (s t : ℝ) (hs : 0 ≤ s)
-    (ht : 0 ≤ t) (hne : s * s + t * t ≠ 0) :
-    ∃ g, Triplet.handle P (edgePoint s t (row P i) (row P j)) = some g ∧
-      coord g i = s / Real.sqrt (s * s + t * t) ∧ coord g j = t / Real.sqrt (s * s + t * t) ∧
-      ∀ k, k ≠ i → k ≠ j → coord g k = 0 := by
-  obtain ⟨e01, e10, e02, e20, e12, e21⟩ := comb3_edge P s t
-  have z : (0 : ℝ) ≤ 0 := le_refl _
-  fin_cases i <;> fin_cases j <;> simp only [ne_eq, not_true_eq_false, Fin.zero_eta, Fin.mk_one, Fin.reduceFinMk] at hij ⊢
-  · have h := triplet_of_comb P hd s t 0 hs ht z (by simpa using hne)
-    rw [e01, h]
-    refine ⟨_, rfl, by simp [coord], by simp [coord], ?_⟩
-    intro k hk0 hk1; fin_cases k <;> simp_all [coord]
-  · have h := triplet_of_comb P hd s 0 t hs z ht (by simpa using hne)
-    rw [e02, h]
-    refine ⟨_, rfl, by simp [coord], by simp [coord], ?_⟩
-    intro k hk0 hk1; fin_cases k <;> simp_all [coord]
-  · have h := triplet_of_comb P hd t s 0 ht hs z (by simpa [add_comm] using hne)
-    rw [e10, h]
-    refine ⟨_, rfl, by simp [coord, add_comm], by simp [coord, add_comm], ?_⟩
-    intro k hk0 hk1; fin_cases k <;> simp_all [coord]
-  · have h := triplet_of_comb P hd 0 s t z hs ht (by simpa using hne)
-    rw [e12, h]
-    refine ⟨_, rfl, by simp [coord], by simp [coord], ?_⟩
-    intro k hk0 hk1; fin_cases k <;> simp_all [coord]
-  · have h := triplet_of_comb P hd t 0 s ht z hs (by simpa [add_comm] using hne)
-    rw [e20, h]
-    refine ⟨_, rfl, by simp [coord, add_comm], by simp [coord, add_comm], ?_⟩
-    intro k hk0 hk1; fin_cases k <;> simp_all [coord]
-  · have h := triplet_of_comb P hd 0 t s z ht hs (by simpa [add_comm] using hne)
-    rw [e21, h]
-    refine ⟨_, rfl, by simp [coord, add_comm], by simp [coord, add_comm], ?_⟩
-    intro k hk0 hk1; fin_cases k <;> simp_all [coord]
-
-/-- Two invertible triplets sharing the edge `a b` (at any row positions) both accept every direction of that
-    edge and return the same gain for `a`, the same gain for `b`, and 0 for their respective third loudspeaker:
-    crossing from one triplet into the other never changes the gains. -/
-theorem edge_agreement (P Q : Mat3 ℝ) (hP : det3 P ≠ 0) (hQ : det3 Q ≠ 0) (i j i' j' : Fin 3) (hij : i ≠ j)
-    (hij' : i' ≠ j') (ha : row P i = row Q i') (hb : row P j = row Q j') (s t : ℝ) (hs : 0 ≤ s) (ht : 0 ≤ t)
-    (hne : s * s + t * t ≠ 0) :
-    ∃ g g', Triplet.handle P (edgePoint s t (row P i) (row P j)) = some g ∧
-      Triplet.handle Q (edgePoint s t (row P i) (row P j)) = some g' ∧
-      coord g i = coord g' i' ∧ coord g j = coord g' j' ∧
-      (∀ k, k ≠ i → k ≠ j → coord g k = 0) ∧ (∀ k, k ≠ i' → k ≠ j' → coord g' k = 0) := by
-  obtain ⟨g, hg, gi, gj, gk⟩ := triplet_on_edge P hP i j hij s t hs ht hne
-  obtain ⟨g', hg', gi', gj', gk'⟩ := triplet_on_edge Q hQ i' j' hij' s t hs ht hne
-  rw [← ha, ← hb] at hg'
-  exact ⟨g, g', hg, hg', by rw [gi, gi'], by rw [gj, gj'], gk, gk'⟩
-
-/-! ### the bilinear quad on its edges (given the roots) -/
-
-/-- `QuadRegion.handle` in closed form: the bilinear weights divided by their norm, scattered by `order`. -/
-theorem quad_out_eq (q : QuadRegion ℝ) (p : Vec3 ℝ) (x y : ℝ) (out : List ℝ) (ho : isPermOfRange q.order 4 = true)
-    (h : q.handle (some x) (some y) p = some out) :
-    out = scatter (zeros 4) q.order ((QuadRegion.weights x y).map (· / Real.sqrt (sumsq (QuadRegion.weights x y)))) := by
-  simp only [QuadRegion.handle] at h
-  split at h
-  · simp at h
-  · simp only [Option.some.injEq] at h
-    subst h
-    unfold normalise norm
-    have hs : sumsq (scatter (zeros 4) q.order (QuadRegion.weights x y)) = sumsq (QuadRegion.weights x y) := by
-      simp only [QuadRegion.weights]
-      rw [scatter4_sumsq ho]; simp [sumsq]; ring
-    rw [hs, sqrt_real]
-    generalize Real.sqrt (sumsq (QuadRegion.weights x y)) = m
-    have hm := perm4_mem ho
-    generalize q.order = o at hm ⊢
-    simp only [List.mem_cons, List.mem_nil_iff, or_false] at hm
-    rcases hm with rfl | rfl | rfl | rfl | rfl | rfl | rfl | rfl | rfl | rfl | rfl | rfl | rfl | rfl | rfl | rfl
-        | rfl | rfl | rfl | rfl | rfl | rfl | rfl | rfl <;>
-      simp [scatter, zeros, QuadRegion.weights, List.replicate]
-
-/-- corner number `k` of the ordered quad (the `a, b, c, d` of `pan_axis`) -/
-noncomputable def QuadRegion.corner (q : QuadRegion ℝ) (k : Nat) : Vec3 ℝ :=
-  q.positions.getD (q.order.getD k 0) zero3
-
-/-- On each of its four edges (one pan value 0 or 1) a quad gives `(1-w, w)/‖(1-w, w)‖` to the edge's two corners
-    and exactly 0 to the other two. Corner order: 0-1 (y=0), 1-2 (x=1), 3-2 (y=1), 0-3 (x=0). -/
-theorem quad_on_edge (q : QuadRegion ℝ) (p : Vec3 ℝ) (w : ℝ) (out : List ℝ) (ho : isPermOfRange q.order 4 = true) :
-    let n := Real.sqrt ((1 - w) * (1 - w) + w * w)
-    (q.handle (some w) (some 0) p = some out → out = scatter (zeros 4) q.order [(1 - w) / n, w / n, 0, 0]) ∧
-    (q.handle (some 1) (some w) p = some out → out = scatter (zeros 4) q.order [0, (1 - w) / n, w / n, 0]) ∧
-    (q.handle (some w) (some 1) p = some out → out = scatter (zeros 4) q.order [0, 0, w / n, (1 - w) / n]) ∧
-    (q.handle (some 0) (some w) p = some out → out = scatter (zeros 4) q.order [(1 - w) / n, 0, 0, w / n]) := by
-  intro n
-  refine ⟨fun h => ?_, fun h => ?_, fun h => ?_, fun h => ?_⟩
-  · rw [quad_out_eq q p w 0 out ho h]
-    have : sumsq (QuadRegion.weights w (0 : ℝ)) = (1 - w) * (1 - w) + w * w := by simp [QuadRegion.weights, sumsq]
-    rw [this]; simp [QuadRegion.weights, n]
-  · rw [quad_out_eq q p 1 w out ho h]
-    have : sumsq (QuadRegion.weights (1 : ℝ) w) = (1 - w) * (1 - w) + w * w := by simp [QuadRegion.weights, sumsq]
-    rw [this]; simp [QuadRegion.weights, n]
-  · rw [quad_out_eq q p w 1 out ho h]
-    have : sumsq (QuadRegion.weights w (1 : ℝ)) = (1 - w) * (1 - w) + w * w := by
-      simp [QuadRegion.weights, sumsq]; ring
-    rw [this]; simp [QuadRegion.weights, n]
-  · rw [quad_out_eq q p 0 w out ho h]
-    have : sumsq (QuadRegion.weights (0 : ℝ) w) = (1 - w) * (1 - w) + w * w := by simp [QuadRegion.weights, sumsq]
-    rw [this]; simp [QuadRegion.weights, n]
-
-/-- A non-negative pair whose velocity vector is parallel to a direction of the open cone of `a`, `b` is, after
-    normalisation, the VBAP pair of that direction. -/
-theorem pair_agree (a b : Vec3 ℝ) (hab : cross3 a b ≠ (0, 0, 0)) (s t u v : ℝ) (hs : 0 < s) (ht : 0 < t)
-    (hu : 0 ≤ u) (hv : 0 ≤ v) (huv : 0 < u * u + v * v)
-    (hcol : cross3 (edgePoint u v a b) (edgePoint s t a b) = (0, 0, 0)) :
-    u / Real.sqrt (u * u + v * v) = s / Real.sqrt (s * s + t * t) ∧
-      v / Real.sqrt (u * u + v * v) = t / Real.sqrt (s * s + t * t) := by
-  set m := Real.sqrt (u * u + v * v) with hm
-  have hmpos : 0 < m := Real.sqrt_pos.mpr huv
-  have hmm : m * m = u * u + v * v := Real.mul_self_sqrt huv.le
-  rw [cross_edge] at hcol
-  have hk := smul3_eq_zero hcol hab
-  obtain ⟨e1, e2, e3, e4⟩ := edge_exists a b s t hs ht
-  exact edge_unique a b hab s t hs ht (u / m) (v / m) _ _
-    (div_nonneg hu hmpos.le) (div_nonneg hv hmpos.le) e1 e2 (by field_simp; nlinarith [hmm]) e3
-    (by
-      rw [cross_edge]
-      have : u / m * t - v / m * s = (u * t - v * s) / m := by field_simp
-      rw [this, hk]; simp [smul3])
-    e4
-
-/-- Agreement of the bilinear quad with VBAP on a shared edge (stated for the edge between corners 0 and 1,
-    `y = 0`): if the direction lies in the open cone of the two corners and the quad's velocity vector
-    `(1-x)·a + x·b` is parallel to the direction (which is what the selected root `x` stands for — the root selection
-    of np.roots is a parameter of the model), then the quad returns exactly the pair `(s, t)/‖(s, t)‖` on those two
-    corners — the pair every invertible triplet with the same edge returns (`triplet_on_edge`) — and 0 elsewhere. -/
-theorem quad_edge_agreement (q : QuadRegion ℝ) (x s t : ℝ) (out : List ℝ) (ho : isPermOfRange q.order 4 = true)
-    (hx0 : 0 ≤ x) (hx1 : x ≤ 1) (hs : 0 < s) (ht : 0 < t) (hab : cross3 (q.corner 0) (q.corner 1) ≠ (0, 0, 0))
-    (hcol : cross3 (edgePoint (1 - x) x (q.corner 0) (q.corner 1)) (edgePoint s t (q.corner 0) (q.corner 1)) = (0, 0, 0))
-    (h : q.handle (some x) (some 0) (edgePoint s t (q.corner 0) (q.corner 1)) = some out) :
-    out = scatter (zeros 4) q.order [s / Real.sqrt (s * s + t * t), t / Real.sqrt (s * s + t * t), 0, 0] := by
-  rw [(quad_on_edge q _ x out ho).1 h]
-  have hpos : 0 < (1 - x) * (1 - x) + x * x := by nlinarith [mul_self_nonneg (1 - x), mul_self_nonneg x]
-  obtain ⟨h1, h2⟩ := pair_agree _ _ hab s t (1 - x) x hs ht (by linarith) hx0 hpos hcol
-  simp only [h1, h2]
-
-/-- The same on the other three edges: corners 1-2 (`x = 1`), 3-2 (`y = 1`), 0-3 (`x = 0`). -/
-theorem quad_edge_agreement' (q : QuadRegion ℝ) (w s t : ℝ) (out : List ℝ) (ho : isPermOfRange q.order 4 = true)
-    (hw0 : 0 ≤ w) (hw1 : w ≤ 1) (hs : 0 < s) (ht : 0 < t) :
-    (cross3 (q.corner 1) (q.corner 2) ≠ (0, 0, 0) →
-      cross3 (edgePoint (1 - w) w (q.corner 1) (q.corner 2)) (edgePoint s t (q.corner 1) (q.corner 2)) = (0, 0, 0) →
-      q.handle (some 1) (some w) (edgePoint s t (q.corner 1) (q.corner 2)) = some out →
-      out = scatter (zeros 4) q.order [0, s / Real.sqrt (s * s + t * t), t / Real.sqrt (s * s + t * t), 0]) ∧
-    (cross3 (q.corner 3) (q.corner 2) ≠ (0, 0, 0) →
-      cross3 (edgePoint (1 - w) w (q.corner 3) (q.corner 2)) (edgePoint s t (q.corner 3) (q.corner 2)) = (0, 0, 0) →
-      q.handle (some w) (some 1) (edgePoint s t (q.corner 3) (q.corner 2)) = some out →
-      out = scatter (zeros 4) q.order [0, 0, t / Real.sqrt (s * s + t * t), s / Real.sqrt (s * s + t * t)]) ∧
-    (cross3 (q.corner 0) (q.corner 3) ≠ (0, 0, 0) →
-      cross3 (edgePoint (1 - w) w (q.corner 0) (q.corner 3)) (edgePoint s t (q.corner 0) (q.corner 3)) = (0, 0, 0) →
-      q.handle (some 0) (some w) (edgePoint s t (q.corner 0) (q.corner 3)) = some out →
-      out = scatter (zeros 4) q.order [s / Real.sqrt (s * s + t * t), 0, 0, t / Real.sqrt (s * s + t * t)]) := by
-  have hpos : 0 < (1 - w) * (1 - w) + w * w := by nlinarith [mul_self_nonneg (1 - w), mul_self_nonneg w]
-  refine ⟨fun hab hcol h => ?_, fun hab hcol h => ?_, fun hab hcol h => ?_⟩
-  · rw [(quad_on_edge q _ w out ho).2.1 h]
-    obtain ⟨h1, h2⟩ := pair_agree _ _ hab s t (1 - w) w hs ht (by linarith) hw0 hpos hcol
-    simp only [h1, h2]
-  · rw [(quad_on_edge q _ w out ho).2.2.1 h]
-    obtain ⟨h1, h2⟩ := pair_agree _ _ hab s t (1 - w) w hs ht (by linarith) hw0 hpos hcol
-    simp only [h1, h2]
-  · rw [(quad_on_edge q _ w out ho).2.2.2 h]
-    obtain ⟨h1, h2⟩ := pair_agree _ _ hab s t (1 - w) w hs ht (by linarith) hw0 hpos hcol
-    simp only [h1, h2]
-
-/-! ### the virtual n-gon on its outer edges -/
-
-theorem sumsq_replicate_zero (n : Nat) : sumsq (List.replicate n (0 : ℝ)) = 0 := by
-  induction n with
-  | zero => simp [sumsq]
-  | succ k ih => simp [List.replicate_succ, sumsq, ih]
-
-theorem sumsq_set : ∀ (l : List ℝ) (i : Nat) (x : ℝ), i < l.length →
-    sumsq (l.set i x) = sumsq l - l.getD i 0 * l.getD i 0 + x * x
-  | [], i, x, h => by simp at h
-  | y :: ys, 0, x, _ => by simp [sumsq]; ring
-  | y :: ys, i + 1, x, h => by
-    have := sumsq_set ys i x (by simpa using h)
-    simp only [List.set_cons_succ, sumsq, this, List.getD_cons_succ]
-    ring
-
-theorem zipWith_add_zero : ∀ (v cd : List ℝ), v.length ≤ cd.length →
-    List.zipWith (fun x d => x + 0 * d) v cd = v
-  | [], _, _ => by simp
-  | x :: xs, [], h => by simp at h
-  | x :: xs, d :: ds, h => by
-    simp only [List.zipWith_cons_cons, zero_mul, add_zero, List.cons.injEq, true_and]
-    have := zipWith_add_zero xs ds (by simpa using h)
-    simpa using this
-
-/-- the candidate answer of one inner triplet `r` of a virtual n-gon -/
-noncomputable def VirtualNgon.candidate (g : VirtualNgon ℝ) (r : List Nat × Mat3 ℝ) (p : Vec3 ℝ) : Option (List ℝ) :=
-  (remap r.1 (g.centreDownmix.length + 1) ((Triplet.handle r.2 p).map vecList)).map (VirtualNgon.mix g.centreDownmix)
-
-theorem ngon_handle_eq (g : VirtualNgon ℝ) (p : Vec3 ℝ) :
-    g.handle p = firstAccept (g.regions.map fun r => g.candidate r p) := rfl
-
-/-- On the outer edge between two consecutive vertices `oi`, `oj` of a virtual n-gon, the inner triplet
-    `(oi, oj, centre)` answers with exactly the VBAP pair `(s, t)/‖(s, t)‖` on `oi`, `oj` and 0 on every other
-    loudspeaker: nothing is sent to the virtual centre, so the centre downmix and the renormalisation change
-    nothing. -/
-theorem ngon_candidate_on_edge (g : VirtualNgon ℝ) (oi oj : Nat) (P : Mat3 ℝ) (hd : det3 P ≠ 0)
-    (hij : oi ≠ oj) (hi : oi < g.centreDownmix.length) (hj : oj < g.centreDownmix.length)
-    (s t : ℝ) (hs : 0 ≤ s) (ht : 0 ≤ t) (hne : s * s + t * t ≠ 0) :
-    g.candidate ([oi, oj, g.centreDownmix.length], P) (edgePoint s t P.1 P.2.1) =
-      some (((zeros g.centreDownmix.length).set oi (s / Real.sqrt (s * s + t * t))).set oj
-        (t / Real.sqrt (s * s + t * t))) := by
-  set n := g.centreDownmix.length with hn
-  set r := Real.sqrt (s * s + t * t) with hr
-  have hpos : 0 < s * s + t * t := lt_of_le_of_ne (by nlinarith [mul_self_nonneg s, mul_self_nonneg t]) (Ne.symm hne)
-  have hrpos : 0 < r := Real.sqrt_pos.mpr hpos
-  have hrr : r * r = s * s + t * t := Real.mul_self_sqrt hpos.le
-  have hp : edgePoint s t P.1 P.2.1 = comb3 s t 0 P := (comb3_edge P s t).1
-  have hh := triplet_of_comb P hd s t 0 hs ht (le_refl _) (by simpa using hne)
-  simp only [mul_zero, add_zero] at hh
-  unfold VirtualNgon.candidate
-  simp only [hp, hh, Option.map_some, remap, vecList, scatter, zero_div]
-  congr 1
-  unfold VirtualNgon.mix
-  simp only [← hn]
-  have hlen : ∀ (l : List ℝ) a b c, (((l.set oi a).set oj b).set n c).length = l.length := by simp
-  have hlast : ((((zeros (n + 1) : List ℝ).set oi (s / r)).set oj (t / r)).set n 0).getD n zero = 0 := by
-    simp [zeros, List.getD_eq_getElem?_getD]
-  rw [hlast]
-  have htake : ((((zeros (n + 1) : List ℝ).set oi (s / r)).set oj (t / r)).set n 0).take n
-      = ((zeros n : List ℝ).set oi (s / r)).set oj (t / r) := by
-    simp only [List.take_set, zeros, List.take_replicate]
-    have : min n (n + 1) = n := by omega
-    rw [this]
-    apply List.set_eq_of_length_le; simp
-  rw [htake, zipWith_add_zero _ _ (by simp [zeros, hn])]
-  have hss : sumsq (((zeros n : List ℝ).set oi (s / r)).set oj (t / r)) = 1 := by
-    rw [sumsq_set _ _ _ (by simp [zeros]; exact hj), sumsq_set _ _ _ (by simp [zeros]; exact hi)]
-    have h0 : ((zeros n : List ℝ).set oi (s / r)).getD oj 0 = 0 := by
-      simp [zeros, List.getD_eq_getElem?_getD, hij, hj]
-    have h1 : (zeros n : List ℝ).getD oi 0 = 0 := by simp [zeros, List.getD_eq_getElem?_getD, hi]
-    rw [h0, h1]
-    simp only [zeros, zero_real, sumsq_replicate_zero]
-    field_simp
-    nlinarith [hrr]
-  unfold normalise norm
-  rw [hss, sqrt_real, Real.sqrt_one]
-  simp
-
-theorem firstAccept_skip {γ : Type} : ∀ (pre : List (Option γ)) (rest : List (Option γ)),
-    (∀ r ∈ pre, r = none) → firstAccept (pre ++ rest) = firstAccept rest
-  | [], _, _ => rfl
-  | x :: xs, rest, h => by
-    have hx : x = none := h x (by simp)
-    subst hx
-    simp only [List.cons_append, firstAccept]
-    exact firstAccept_skip xs rest (fun r hr => h r (by simp [hr]))
-
-/-- n-gon version of edge agreement: if the inner triplets tried before `(oi, oj, centre)` reject the direction,
-    the virtual n-gon returns on its outer edge `oi`-`oj` exactly the pair `(s, t)/‖(s, t)‖` that every invertible
-    triplet with the same edge returns (`triplet_on_edge`), and 0 on its other loudspeakers.  (Without the hypothesis
-    on the earlier triplets the statement is false in exact arithmetic: within 1e-11 of a vertex a neighbouring inner
-    triplet may accept first and differ by O(1e-11) — the acceptance slack; that is searched, not proved.) -/
-theorem ngon_on_edge (g : VirtualNgon ℝ) (oi oj : Nat) (P : Mat3 ℝ) (pre post : List (List Nat × Mat3 ℝ))
-    (hreg : g.regions = pre ++ ([oi, oj, g.centreDownmix.length], P) :: post) (hd : det3 P ≠ 0)
-    (hij : oi ≠ oj) (hi : oi < g.centreDownmix.length) (hj : oj < g.centreDownmix.length)
-    (s t : ℝ) (hs : 0 ≤ s) (ht : 0 ≤ t) (hne : s * s + t * t ≠ 0)
-    (hpre : ∀ r ∈ pre, g.candidate r (edgePoint s t P.1 P.2.1) = none) :
-    g.handle (edgePoint s t P.1 P.2.1) =
-      some (((zeros g.centreDownmix.length).set oi (s / Real.sqrt (s * s + t * t))).set oj
-        (t / Real.sqrt (s * s + t * t))) := by
-  rw [ngon_handle_eq, hreg, List.map_append, firstAccept_skip _ _ (by
-    intro r hr
-    obtain ⟨r', hr', rfl⟩ := List.mem_map.mp hr
-    exact hpre r' hr')]
-  simp only [List.map_cons, ngon_candidate_on_edge g oi oj P hd hij hi hj s t hs ht hne, firstAccept]
-
-/-! ### why edge agreement cannot extend to global continuity: a non-planar quad is two-valued
-
-    Kernel-checked counter-example inside the model.  For a non-planar quad the ray of a direction can meet the bilinear
-    surface twice inside the patch: both quadratics of `pan_axis` then have two roots in [0, 1], both root pairs pass the
-    acceptance test of `QuadRegion.handle`, and the two answers differ.  The real code takes "the first root in range"
-    in the order np.roots returns them, so which answer is given can change between neighbouring directions
-    (known finding `quad-two-in-range-roots`, reproduced on the real code by harness/c12.py). -/
-
-/-- a non-planar ("twisted") quad with rational corners: z alternates 1, -1/2, 1, -1/2 around the square -/
-noncomputable def twistedQuad : QuadRegion ℝ :=
-  ⟨[(-1/2, -1/2, 1), (1/2, -1/2, -1/2), (1/2, 1/2, 1), (-1/2, 1/2, -1/2)], [0, 1, 2, 3]⟩
-
-/-- ... and a direction whose ray meets the quad's bilinear surface twice -/
-noncomputable def twistedDir : Vec3 ℝ := (1, 1, 7/4)
-
-theorem quad_two_valued_witness :
-    -- both pan_axis quadratics at this direction are genuine quadratics with the two roots 3/4 and 5/6, both inside [0, 1]
-    (let P := (twistedQuad.polys twistedDir).1
-     P.1 ≠ 0 ∧ P.1 * (3/4) ^ 2 + P.2.1 * (3/4) + P.2.2 = 0 ∧ P.1 * (5/6) ^ 2 + P.2.1 * (5/6) + P.2.2 = 0) ∧
-    (let P := (twistedQuad.polys twistedDir).2
-     P.1 ≠ 0 ∧ P.1 * (3/4) ^ 2 + P.2.1 * (3/4) + P.2.2 = 0 ∧ P.1 * (5/6) ^ 2 + P.2.1 * (5/6) + P.2.2 = 0) ∧
-    -- both root pairs give bilinear weights whose velocity vector is a POSITIVE multiple of the direction
-    comb (QuadRegion.weights (3/4 : ℝ) (3/4)) twistedQuad.positions = smul3 (1/4) twistedDir ∧
-    comb (QuadRegion.weights (5/6 : ℝ) (5/6)) twistedQuad.positions = smul3 (1/3) twistedDir ∧
-    -- so `QuadRegion.handle` accepts the direction with either pair, and the two answers differ
-    ∃ g1 g2, twistedQuad.handle (some (3/4)) (some (3/4)) twistedDir = some g1 ∧
-      twistedQuad.handle (some (5/6)) (some (5/6)) twistedDir = some g2 ∧
-      g1.getD 2 0 = 9 * g1.getD 0 0 ∧ g2.getD 2 0 = 25 * g2.getD 0 0 ∧ 0 < g1.getD 0 0 ∧ 0 < g2.getD 0 0 ∧ g1 ≠ g2 := by
-  refine ⟨?_, ?_, ?_, ?_, ?_⟩
-  · simp only [QuadRegion.polys, QuadRegion.panPoly, twistedQuad, twistedDir, List.getD_cons_zero, List.getD_cons_succ,
-      dot3, cross3, sub3, add3]
-    norm_num
-  · simp only [QuadRegion.polys, QuadRegion.panPoly, twistedQuad, twistedDir, List.getD_cons_zero, List.getD_cons_succ,
-      dot3, cross3, sub3, add3]
-    norm_num
-  · simp only [comb, QuadRegion.weights, twistedQuad, twistedDir, add3, smul3, zero3, one_real, zero_real]
-    norm_num
-  · simp only [comb, QuadRegion.weights, twistedQuad, twistedDir, add3, smul3, zero3, one_real, zero_real]
-    norm_num
-  · have hs1 : scatter (zeros 4) twistedQuad.order (QuadRegion.weights (3/4 : ℝ) (3/4)) = [1/16, 3/16, 9/16, 3/16] := by
-      simp only [twistedQuad, scatter, zeros, QuadRegion.weights, one_real, zero_real, List.replicate, List.set]
-      norm_num
-    have hs2 : scatter (zeros 4) twistedQuad.order (QuadRegion.weights (5/6 : ℝ) (5/6)) = [1/36, 5/36, 25/36, 5/36] := by
-      simp only [twistedQuad, scatter, zeros, QuadRegion.weights, one_real, zero_real, List.replicate, List.set]
-      norm_num
-    have ha1 : ¬ dot3 (comb ([1/16, 3/16, 9/16, 3/16] : List ℝ) twistedQuad.positions) twistedDir ≤ zero := by
-      simp only [comb, twistedQuad, twistedDir, add3, smul3, zero3, dot3, zero_real]
-      norm_num
-    have ha2 : ¬ dot3 (comb ([1/36, 5/36, 25/36, 5/36] : List ℝ) twistedQuad.positions) twistedDir ≤ zero := by
-      simp only [comb, twistedQuad, twistedDir, add3, smul3, zero3, dot3, zero_real]
-      norm_num
-    have hn1 : 0 < norm ([1/16, 3/16, 9/16, 3/16] : List ℝ) := by
-      simp only [norm, sqrt_real, sumsq, zero_real]; apply Real.sqrt_pos.mpr; norm_num
-    have hn2 : 0 < norm ([1/36, 5/36, 25/36, 5/36] : List ℝ) := by
-      simp only [norm, sqrt_real, sumsq, zero_real]; apply Real.sqrt_pos.mpr; norm_num
-    refine ⟨normalise [1/16, 3/16, 9/16, 3/16], normalise [1/36, 5/36, 25/36, 5/36], ?_, ?_, ?_, ?_, ?_, ?_, ?_⟩
-    · simp only [QuadRegion.handle, hs1, if_neg ha1]
-    · simp only [QuadRegion.handle, hs2, if_neg ha2]
-    · simp only [normalise, List.map_cons, List.map_nil, List.getD_cons_zero, List.getD_cons_succ]; ring
-    · simp only [normalise, List.map_cons, List.map_nil, List.getD_cons_zero, List.getD_cons_succ]; ring
-    · simp only [normalise, List.map_cons, List.getD_cons_zero]; positivity
-    · simp only [normalise, List.map_cons, List.getD_cons_zero]; positivity
-    · intro h
-      have h0 : (normalise ([1/16, 3/16, 9/16, 3/16] : List ℝ)).getD 0 0 = (normalise ([1/36, 5/36, 25/36, 5/36] : List ℝ)).getD 0 0 := by rw [h]
-      have h2 : (normalise ([1/16, 3/16, 9/16, 3/16] : List ℝ)).getD 2 0 = (normalise ([1/36, 5/36, 25/36, 5/36] : List ℝ)).getD 2 0 := by rw [h]
-      simp only [normalise, List.map_cons, List.map_nil, List.getD_cons_zero, List.getD_cons_succ] at h0 h2
-      have p1 : (0 : ℝ) < 1 / 16 / norm ([1/16, 3/16, 9/16, 3/16] : List ℝ) := by positivity
-      have e1 : (9 / 16 : ℝ) / norm ([1/16, 3/16, 9/16, 3/16] : List ℝ) = 9 * (1 / 16 / norm ([1/16, 3/16, 9/16, 3/16] : List ℝ)) := by ring
-      have e2 : (25 / 36 : ℝ) / norm ([1/36, 5/36, 25/36, 5/36] : List ℝ) = 25 * (1 / 36 / norm ([1/36, 5/36, 25/36, 5/36] : List ℝ)) := by ring
-      rw [e1, e2, ← h0] at h2
-      linarith
-
-/-! ### piecewise continuity -/
-
-theorem continuous_clip01 : Continuous (clip01 : ℝ → ℝ) := by
-  have : (clip01 : ℝ → ℝ) = fun x => min (max x 0) 1 := by
-    funext x; simp [clip01]
-  rw [this]
-  exact (continuous_id.max continuous_const).min continuous_const
-
-theorem continuous_pv (P : Mat3 ℝ) : Continuous (fun p : Vec3 ℝ => Triplet.pv P p) := by
-  obtain ⟨⟨a0, a1, a2⟩, ⟨b0, b1, b2⟩, ⟨c0, c1, c2⟩⟩ := P
-  simp only [Triplet.pv, vecMat, inv3]
-  fun_prop
-
-/-- normalise-and-clip as a function of the un-normalised gains -/
-noncomputable def normClip (v : Vec3 ℝ) : Vec3 ℝ :=
-  (clip01 (v.1 / Real.sqrt (v.1 * v.1 + v.2.1 * v.2.1 + v.2.2 * v.2.2)),
-   clip01 (v.2.1 / Real.sqrt (v.1 * v.1 + v.2.1 * v.2.1 + v.2.2 * v.2.2)),
-   clip01 (v.2.2 / Real.sqrt (v.1 * v.1 + v.2.1 * v.2.1 + v.2.2 * v.2.2)))
-
-theorem gains_eq_normClip (P : Mat3 ℝ) (p : Vec3 ℝ) : Triplet.gains P p = normClip (Triplet.pv P p) := rfl
-
-theorem sqrt_ne_zero_of_ne {v : Vec3 ℝ} (hv : v ≠ (0, 0, 0)) :
-    Real.sqrt (v.1 * v.1 + v.2.1 * v.2.1 + v.2.2 * v.2.2) ≠ 0 := by
-  obtain ⟨x, y, z⟩ := v
-  simp only
-  have h0 : 0 ≤ x * x + y * y + z * z := by nlinarith [mul_self_nonneg x, mul_self_nonneg y, mul_self_nonneg z]
-  intro h
-  have hz := (Real.sqrt_eq_zero h0).mp h
-  apply hv
-  have hx : x * x = 0 := by nlinarith [mul_self_nonneg x, mul_self_nonneg y, mul_self_nonneg z]
-  have hy : y * y = 0 := by nlinarith [mul_self_nonneg x, mul_self_nonneg y, mul_self_nonneg z]
-  have hz' : z * z = 0 := by nlinarith [mul_self_nonneg x, mul_self_nonneg y, mul_self_nonneg z]
-  rw [mul_self_eq_zero.mp hx, mul_self_eq_zero.mp hy, mul_self_eq_zero.mp hz']
-
-theorem continuousOn_normClip : ContinuousOn normClip {v : Vec3 ℝ | v ≠ (0, 0, 0)} := by
-  have hn : ContinuousOn (fun v : Vec3 ℝ => Real.sqrt (v.1 * v.1 + v.2.1 * v.2.1 + v.2.2 * v.2.2))
-      {v : Vec3 ℝ | v ≠ (0, 0, 0)} := by
-    apply Continuous.continuousOn; fun_prop
-  have hne : ∀ v ∈ {v : Vec3 ℝ | v ≠ (0, 0, 0)},
-      Real.sqrt (v.1 * v.1 + v.2.1 * v.2.1 + v.2.2 * v.2.2) ≠ 0 := fun v hv => sqrt_ne_zero_of_ne hv
-  unfold normClip
-  refine ContinuousOn.prodMk ?_ (ContinuousOn.prodMk ?_ ?_)
-  · exact continuous_clip01.comp_continuousOn ((continuous_fst.continuousOn).div hn hne)
-  · exact continuous_clip01.comp_continuousOn (((continuous_fst.comp continuous_snd).continuousOn).div hn hne)
-  · exact continuous_clip01.comp_continuousOn (((continuous_snd.comp continuous_snd).continuousOn).div hn hne)
-
-/-- The gains of a triplet are a continuous function of the direction wherever the un-normalised gains are not
-    the zero vector (for an invertible `P`: for every `p ≠ 0`). -/
-theorem triplet_continuousOn (P : Mat3 ℝ) :
-    ContinuousOn (fun p : Vec3 ℝ => Triplet.gains P p) {p | Triplet.pv P p ≠ (0, 0, 0)} := by
-  have h : (fun p : Vec3 ℝ => Triplet.gains P p) = normClip ∘ (fun p => Triplet.pv P p) := by
-    funext p; exact gains_eq_normClip P p
-  rw [h]
-  exact continuousOn_normClip.comp (continuous_pv P).continuousOn (fun p hp => hp)
-
-/-- On its acceptance set the triplet's answer IS that continuous function (and outside it is "no result"). -/
-theorem triplet_handle_continuousOn (P : Mat3 ℝ) :
-    ∃ G : Vec3 ℝ → Vec3 ℝ, ContinuousOn G {p | Triplet.pv P p ≠ (0, 0, 0)} ∧
-      (∀ p, Triplet.accepts P p → Triplet.handle P p = some (G p)) ∧
-      (∀ p, ¬ Triplet.accepts P p → Triplet.handle P p = none) :=
-  ⟨fun p => Triplet.gains P p, triplet_continuousOn P,
-    fun p hp => by simp [Triplet.handle, hp], fun p hp => by simp [Triplet.handle, hp]⟩
-
-/-! ### stereo wrapper -/
-
-/-- the two outputs of `StereoPanDownmix.handle` as explicit real functions of the five inner gains -/
-noncomputable def stereoL (g : ℝ × ℝ × ℝ × ℝ × ℝ) : ℝ :=
-  let A := g.1 + Real.sqrt 3 / 3 * g.2.2.1 + Real.sqrt (1 / 2) * g.2.2.2.1
-  let B := g.2.1 + Real.sqrt 3 / 3 * g.2.2.1 + Real.sqrt (1 / 2) * g.2.2.2.2
-  A / Real.sqrt (A * A + (B * B + 0)) *
-    (1 / 2 : ℝ) ^ (1 / 2 * max g.2.2.2.1 g.2.2.2.2 / (max (max g.1 g.2.1) g.2.2.1 + max g.2.2.2.1 g.2.2.2.2))
-
-noncomputable def stereoR (g : ℝ × ℝ × ℝ × ℝ × ℝ) : ℝ :=
-  let A := g.1 + Real.sqrt 3 / 3 * g.2.2.1 + Real.sqrt (1 / 2) * g.2.2.2.1
-  let B := g.2.1 + Real.sqrt 3 / 3 * g.2.2.1 + Real.sqrt (1 / 2) * g.2.2.2.2
-  B / Real.sqrt (A * A + (B * B + 0)) *
-    (1 / 2 : ℝ) ^ (1 / 2 * max g.2.2.2.1 g.2.2.2.2 / (max (max g.1 g.2.1) g.2.2.1 + max g.2.2.2.1 g.2.2.2.2))
-
-theorem stereo_handle_eq (g0 g1 g2 g3 g4 : ℝ) :
-    StereoPanDownmix.handle (some [g0, g1, g2, g3, g4]) =
-      some [stereoL (g0, g1, g2, g3, g4), stereoR (g0, g1, g2, g3, g4)] := by
-  have hcast : (((1 / 2 : Rat)) : ℝ) = 1 / 2 := by push_cast; rfl
-  simp only [StereoPanDownmix.handle, stereo_matVec, normalise, norm, sumsq, List.map_cons, List.map_nil,
-    sqrt_real, zero_real, powHalf_real, max_real, ofRat_real, hcast, stereoL, stereoR]
-
-/-- the set of non-negative, not all zero inner gain vectors -/
-def stereoDomain : Set (ℝ × ℝ × ℝ × ℝ × ℝ) :=
-  {g | 0 ≤ g.1 ∧ 0 ≤ g.2.1 ∧ 0 ≤ g.2.2.1 ∧ 0 ≤ g.2.2.2.1 ∧ 0 ≤ g.2.2.2.2 ∧ g ≠ (0, 0, 0, 0, 0)}
-
-theorem stereo_aux {g : ℝ × ℝ × ℝ × ℝ × ℝ} (hg : g ∈ stereoDomain) :
-    let A := g.1 + Real.sqrt 3 / 3 * g.2.2.1 + Real.sqrt (1 / 2) * g.2.2.2.1
-    let B := g.2.1 + Real.sqrt 3 / 3 * g.2.2.1 + Real.sqrt (1 / 2) * g.2.2.2.2
-    Real.sqrt (A * A + (B * B + 0)) ≠ 0 ∧ max (max g.1 g.2.1) g.2.2.1 + max g.2.2.2.1 g.2.2.2.2 ≠ 0 := by
-  obtain ⟨g0, g1, g2, g3, g4⟩ := g
-  obtain ⟨h0, h1, h2, h3, h4, hne⟩ := hg
-  simp only at h0 h1 h2 h3 h4 ⊢
-  have hcpos : (0 : ℝ) < Real.sqrt 3 / 3 := div_pos (Real.sqrt_pos.mpr (by norm_num)) (by norm_num)
-  have hspos : (0 : ℝ) < Real.sqrt (1 / 2) := Real.sqrt_pos.mpr (by norm_num)
-  -- some gain is positive
-  have hsum : 0 < g0 + g1 + g2 + g3 + g4 := by
-    rcases (lt_or_eq_of_le (by linarith : 0 ≤ g0 + g1 + g2 + g3 + g4)) with h | h
-    · exact h
-    · exfalso; apply hne
-      have e0 : g0 = 0 := by linarith
-      have e1 : g1 = 0 := by linarith
-      have e2 : g2 = 0 := by linarith
-      have e3 : g3 = 0 := by linarith
-      have e4 : g4 = 0 := by linarith
-      rw [e0, e1, e2, e3, e4]
-  constructor
-  · set c := Real.sqrt 3 / 3
-    set s := Real.sqrt (1 / 2)
-    have hA : 0 ≤ g0 + c * g2 + s * g3 := by have := mul_nonneg hcpos.le h2; have := mul_nonneg hspos.le h3; linarith
-    have hB : 0 ≤ g1 + c * g2 + s * g4 := by have := mul_nonneg hcpos.le h2; have := mul_nonneg hspos.le h4; linarith
-    have hAB : 0 < (g0 + c * g2 + s * g3) + (g1 + c * g2 + s * g4) := by
-      by_contra hle
-      have hz : (g0 + c * g2 + s * g3) + (g1 + c * g2 + s * g4) = 0 := by linarith
-      have := mul_nonneg hcpos.le h2; have := mul_nonneg hspos.le h3; have := mul_nonneg hspos.le h4
-      have e0 : g0 = 0 := by linarith
-      have e1 : g1 = 0 := by linarith
-      have e2 : c * g2 = 0 := by linarith
-      have e3 : s * g3 = 0 := by linarith
-      have e4 : s * g4 = 0 := by linarith
-      have e2' : g2 = 0 := (mul_eq_zero.mp e2).resolve_left hcpos.ne'
-      have e3' : g3 = 0 := (mul_eq_zero.mp e3).resolve_left hspos.ne'
-      have e4' : g4 = 0 := (mul_eq_zero.mp e4).resolve_left hspos.ne'
-      rw [e0, e1, e2', e3', e4'] at hsum
-      norm_num at hsum
-    apply (Real.sqrt_pos.mpr _).ne'
-    have key : ∀ X Y : ℝ, 0 ≤ X → 0 ≤ Y → 0 < X + Y → 0 < X * X + (Y * Y + 0) := by
-      intro X Y hX hY hXY
-      rcases lt_or_eq_of_le hX with h | h
-      · have := mul_pos h h; nlinarith [mul_self_nonneg Y]
-      · have hY' : 0 < Y := by linarith
-        have := mul_pos hY' hY'; nlinarith [mul_self_nonneg X]
-    exact key _ _ hA hB hAB
-  · have hf : 0 ≤ max (max g0 g1) g2 := le_trans h2 (le_max_right _ _)
-    have hb : 0 ≤ max g3 g4 := le_trans h4 (le_max_right _ _)
-    intro hz
-    have hf0 : max (max g0 g1) g2 = 0 := by linarith
-    have hb0 : max g3 g4 = 0 := by linarith
-    have : g0 ≤ 0 := le_trans (le_trans (le_max_left _ _) (le_max_left _ _)) hf0.le
-    have : g1 ≤ 0 := le_trans (le_trans (le_max_right _ _) (le_max_left _ _)) hf0.le
-    have : g2 ≤ 0 := le_trans (le_max_right _ _) hf0.le
-    have : g3 ≤ 0 := le_trans (le_max_left _ _) hb0.le
-    have : g4 ≤ 0 := le_trans (le_max_right _ _) hb0.le
-    linarith
-
-/-- The stereo wrapper's two outputs are continuous functions of the (non-negative, non-zero) inner gains: the
-    level law `0.5^(0.5·back/(front+back))` depends continuously on the front/back balance. -/
-theorem stereo_continuousOn :
-    (∀ g0 g1 g2 g3 g4 : ℝ, StereoPanDownmix.handle (some [g0, g1, g2, g3, g4]) =
-      some [stereoL (g0, g1, g2, g3, g4), stereoR (g0, g1, g2, g3, g4)]) ∧
-    ContinuousOn stereoL stereoDomain ∧ ContinuousOn stereoR stereoDomain := by
-  refine ⟨stereo_handle_eq, ?_, ?_⟩
-  · unfold stereoL
-    refine ContinuousOn.mul (ContinuousOn.div (by fun_prop) (by fun_prop) (fun g hg => (stereo_aux hg).1)) ?_
-    refine (Real.continuous_const_rpow (by norm_num)).comp_continuousOn ?_
-    exact ContinuousOn.div (by fun_prop) (by fun_prop) (fun g hg => (stereo_aux hg).2)
-  · unfold stereoR
-    refine ContinuousOn.mul (ContinuousOn.div (by fun_prop) (by fun_prop) (fun g hg => (stereo_aux hg).1)) ?_
-    refine (Real.continuous_const_rpow (by norm_num)).comp_continuousOn ?_
-    exact ContinuousOn.div (by fun_prop) (by fun_prop) (fun g hg => (stereo_aux hg).2)
-
-/-! ### downmix wrapper -/
-
-theorem continuous_dot_ofFn {m : Nat} : ∀ (row : List ℝ), Continuous (fun v : Fin m → ℝ => dot row (List.ofFn v)) := by
-  induction m with
-  | zero => intro row; cases row <;> simp [dot] <;> exact continuous_const
-  | succ k ih =>
-    intro row
-    cases row with
-    | nil => simp only [dot]; exact continuous_const
-    | cons x xs =>
-      simp only [List.ofFn_succ, dot]
-      refine (continuous_const.mul (continuous_apply 0)).add ?_
-      exact (ih xs).comp (continuous_pi fun i => continuous_apply (Fin.succ i))
-
-theorem continuous_sumsq_matVec {m : Nat} : ∀ (D : List (List ℝ)),
-    Continuous (fun v : Fin m → ℝ => sumsq (matVec D (List.ofFn v)))
-  | [] => by simp only [matVec, List.map_nil, sumsq]; exact continuous_const
-  | row :: rest => by
-    have ih := continuous_sumsq_matVec (m := m) rest
-    simp only [matVec, List.map_cons, sumsq] at ih ⊢
-    exact ((continuous_dot_ofFn row).mul (continuous_dot_ofFn row)).add ih
-
-/-- PointSourcePannerDownmix: every output coordinate is a continuous function of the inner gain vector wherever
-    the downmixed vector is not zero. (Lists carry no topology: the inner vector is `List.ofFn v`, `v : Fin m → ℝ`.) -/
-theorem downmix_continuousOn {m : Nat} (D : List (List ℝ)) (i : Nat) :
-    (∀ v : Fin m → ℝ, PointSourcePannerDownmix.handle D (some (List.ofFn v)) =
-      some ((matVec D (List.ofFn v)).map (· / Real.sqrt (sumsq (matVec D (List.ofFn v)))))) ∧
-    ContinuousOn (fun v : Fin m → ℝ => dot (D.getD i []) (List.ofFn v) / Real.sqrt (sumsq (matVec D (List.ofFn v))))
-      {v | sumsq (matVec D (List.ofFn v)) ≠ 0} := by
-  refine ⟨fun v => by simp [PointSourcePannerDownmix.handle, normalise, norm], ?_⟩
-  refine ContinuousOn.div (continuous_dot_ofFn _).continuousOn (continuous_sumsq_matVec D).sqrt.continuousOn ?_
-  intro v hv
-  have h0 := sumsq_nonneg (matVec D (List.ofFn v))
-  exact (Real.sqrt_pos.mpr (lt_of_le_of_ne h0 (Ne.symm hv))).ne'
-
-/-! ### closedness of the acceptance sets -/
-
-/-- The acceptance set of a triplet, `{p | ε ≤ every component of p·P⁻¹}`, is closed — for every threshold `ε` (the
-    code's −1e-11, the idealised 0) and every matrix (for a singular `P` the model's `inv3` divides by 0 = 0 over ℝ and
-    `pv` is still linear).  A fortiori it is closed in the set of directions ≠ 0. -/
-theorem triplet_accept_isClosed (ε : ℝ) (P : Mat3 ℝ) : IsClosed {p : Vec3 ℝ | Triplet.acceptsE ε P p} := by
-  have hc := continuous_pv P
-  have h1 : IsClosed {p : Vec3 ℝ | ε ≤ (Triplet.pv P p).1} := isClosed_le continuous_const (continuous_fst.comp hc)
-  have h2 : IsClosed {p : Vec3 ℝ | ε ≤ (Triplet.pv P p).2.1} :=
-    isClosed_le continuous_const ((continuous_fst.comp continuous_snd).comp hc)
-  have h3 : IsClosed {p : Vec3 ℝ | ε ≤ (Triplet.pv P p).2.2} :=
-    isClosed_le continuous_const ((continuous_snd.comp continuous_snd).comp hc)
-  exact h1.inter (h2.inter h3)
-
-/-- ... in particular the set of directions for which the model's `Triplet.handle` returns a result -/
-theorem triplet_accept_isClosed_code (P : Mat3 ℝ) : IsClosed {p : Vec3 ℝ | Triplet.handle P p ≠ none} := by
-  have : {p : Vec3 ℝ | Triplet.handle P p ≠ none} = {p | Triplet.acceptsE tripletEps P p} := by
-    ext p
-    simp only [mem_ofPred_eq, Triplet.handle, acceptsE_eps]
-    by_cases h : Triplet.accepts P p <;> simp [h]
-  rw [this]; exact triplet_accept_isClosed _ P
-
-theorem isClosed_exists_mem {ι : Type} (A : ι → Set (Vec3 ℝ)) : ∀ l : List ι, (∀ r ∈ l, IsClosed (A r)) →
-    IsClosed {p | ∃ r ∈ l, p ∈ A r}
-  | [], _ => by simp
-  | a :: rest, h => by
-    have : {p | ∃ r ∈ a :: rest, p ∈ A r} = A a ∪ {p | ∃ r ∈ rest, p ∈ A r} := by
-      ext p; simp
-    rw [this]
-    exact (h a (by simp)).union (isClosed_exists_mem A rest (fun r hr => h r (List.mem_cons_of_mem _ hr)))
-
-/-- the acceptance set of a virtual n-gon (union of its inner triplets' acceptance sets) is closed -/
-theorem ngon_accept_isClosed (g : VirtualNgon ℝ) : IsClosed {p : Vec3 ℝ | g.handle p ≠ none} := by
-  have : {p : Vec3 ℝ | g.handle p ≠ none} = {p | ∃ r ∈ g.regions, p ∈ {p | Triplet.acceptsE tripletEps r.2 p}} := by
-    ext p
-    simp only [mem_ofPred_eq, ne_eq, ngon_handle_eq, firstAccept_eq_none, not_forall, List.mem_map]
-    constructor
-    · rintro ⟨x, ⟨r, hr, rfl⟩, hx⟩
-      refine ⟨r, hr, ?_⟩
-      by_contra hacc
-      apply hx
-      have : Triplet.handle r.2 p = none := by
-        rw [← handleE_eps]; simp [Triplet.handleE, hacc]
-      simp [VirtualNgon.candidate, this, remap]
-    · rintro ⟨r, hr, hacc⟩
-      refine ⟨_, ⟨r, hr, rfl⟩, ?_⟩
-      have : Triplet.handle r.2 p = some (Triplet.gains r.2 p) := by
-        rw [← handleE_eps]; simp [Triplet.handleE, hacc]
-      simp [VirtualNgon.candidate, this, remap]
-  rw [this]
-  exact isClosed_exists_mem _ _ (fun r _ => triplet_accept_isClosed _ r.2)
-
-
-/-! ### an all-triplet panner at acceptance slack 0 -/
-
-/-- output channel of row `a` of a triplet -/
-def chanAt (ch : List Nat) (a : Fin 3) : Nat := ch.getD a.1 0
-
-/-- a three-channel remap of gains supported on rows `i`, `j`, read at channel `c` -/
-theorem remap3_supported (n c c0 c1 c2 : Nat) (h01 : c0 ≠ c1) (h02 : c0 ≠ c2) (h12 : c1 ≠ c2) (g : Vec3 ℝ)
-    (i j : Fin 3) (hij : i ≠ j) (hk : ∀ k, k ≠ i → k ≠ j → coord g k = 0) :
-    (scatter (zeros n) [c0, c1, c2] (vecList g)).getD c 0 =
-      (if c = chanAt [c0, c1, c2] i ∧ c < n then coord g i else 0) +
-        (if c = chanAt [c0, c1, c2] j ∧ c < n then coord g j else 0) := by
-  obtain ⟨g0, g1, g2⟩ := g
-  simp only [vecList]
-  rw [scatter3_getD]
-  fin_cases i <;> fin_cases j <;> simp only [ne_eq, not_true_eq_false, Fin.zero_eta, Fin.mk_one, Fin.reduceFinMk] at hij
-  all_goals simp only [chanAt, coord, List.getD_cons_zero, List.getD_cons_succ]
-  · have h2 := hk 2 (by decide) (by decide); simp only [coord] at h2; subst h2
-    split_ifs <;> first | rfl | (simp; done) | omega
-  · have h2 := hk 1 (by decide) (by decide); simp only [coord] at h2; subst h2
-    split_ifs <;> first | rfl | (simp; done) | omega
-  · have h2 := hk 2 (by decide) (by decide); simp only [coord] at h2; subst h2
-    split_ifs <;> first | rfl | (simp; done) | omega
-  · have h2 := hk 0 (by decide) (by decide); simp only [coord] at h2; subst h2
-    split_ifs <;> first | rfl | (simp; done) | omega
-  · have h2 := hk 1 (by decide) (by decide); simp only [coord] at h2; subst h2
-    split_ifs <;> first | rfl | (simp; done) | omega
-  · have h2 := hk 0 (by decide) (by decide); simp only [coord] at h2; subst h2
-    split_ifs <;> first | rfl | (simp; done) | omega
-
-/-- a region of an all-triplet panner: (output channels, positions) -/
-abbrev TRegion := List Nat × Mat3 ℝ
-
-/-- three distinct output channels -/
-def TRegion.chOk (r : TRegion) : Prop := ∃ c0 c1 c2, r.1 = [c0, c1, c2] ∧ c0 ≠ c1 ∧ c0 ≠ c2 ∧ c1 ≠ c2
-
-/-- THE COMBINATORIAL HYPOTHESIS on a pair of triplets: their exact (slack 0) acceptance cones meet only in a shared
-    face.  Every common direction `p ≠ 0` lies on the arc `s·a + t·b` (`s, t ≥ 0`) between two loudspeakers `a`, `b`
-    of the first triplet such that `a` is also a loudspeaker of the second triplet, on the same output channel, and
-    either `t = 0` (the direction IS the shared loudspeaker `a`: shared vertex) or the same holds for `b` (shared
-    edge). -/
-def MeetInSharedFace (r r' : TRegion) : Prop :=
-  ∀ p : Vec3 ℝ, p ≠ (0, 0, 0) → Triplet.acceptsE 0 r.2 p → Triplet.acceptsE 0 r'.2 p →
-    ∃ (i j i' j' : Fin 3) (s t : ℝ), i ≠ j ∧ i' ≠ j' ∧ 0 ≤ s ∧ 0 ≤ t ∧
-      p = edgePoint s t (row r.2 i) (row r.2 j) ∧
-      row r.2 i = row r'.2 i' ∧ chanAt r.1 i = chanAt r'.1 i' ∧
-      (t = 0 ∨ (row r.2 j = row r'.2 j' ∧ chanAt r.1 j = chanAt r'.1 j'))
-
-theorem edgePoint_zero_right (s : ℝ) (a b b' : Vec3 ℝ) : edgePoint s 0 a b = edgePoint s 0 a b' := by
-  simp [edgePoint, add3, smul3]
-
-theorem handle_some_eq_gains {P : Mat3 ℝ} {p g : Vec3 ℝ} (h : Triplet.handle P p = some g) : g = Triplet.gains P p := by
-  unfold Triplet.handle at h
-  split at h
-  · exact (Option.some.inj h).symm
-  · simp at h
-
-/-- the remapped output of one triplet, read at channel `c` -/
-noncomputable def tripletOut (n : Nat) (r : TRegion) (p : Vec3 ℝ) : List ℝ :=
-  scatter (zeros n) r.1 (vecList (Triplet.gains r.2 p))
-
-/-- AGREEMENT, discharged from the combinatorial hypothesis by `triplet_on_edge`: two invertible triplets whose exact
-    cones meet only in a shared face give every output channel the same gain at every common direction. -/
-theorem shared_face_agreement (r r' : TRegion) (hd : det3 r.2 ≠ 0) (hd' : det3 r'.2 ≠ 0) (hch : r.chOk)
-    (hch' : r'.chOk) (h : MeetInSharedFace r r') (n c : Nat) (p : Vec3 ℝ) (hp : p ≠ (0, 0, 0))
-    (ha : Triplet.acceptsE 0 r.2 p) (ha' : Triplet.acceptsE 0 r'.2 p) :
-    (tripletOut n r p).getD c 0 = (tripletOut n r' p).getD c 0 := by
-  obtain ⟨i, j, i', j', s, t, hij, hij', hs, ht, hpe, hri, hci, hj⟩ := h p hp ha ha'
-  have hne : s * s + t * t ≠ 0 := by
-    intro h0
-    have hs0 : s = 0 := by nlinarith [mul_self_nonneg s, mul_self_nonneg t]
-    have ht0 : t = 0 := by nlinarith [mul_self_nonneg s, mul_self_nonneg t]
-    apply hp; rw [hpe, hs0, ht0]; simp [edgePoint, add3, smul3]
-  obtain ⟨g, hg, gi, gj, gk⟩ := triplet_on_edge r.2 hd i j hij s t hs ht hne
-  have hpe' : p = edgePoint s t (row r'.2 i') (row r'.2 j') := by
-    rcases hj with rfl | ⟨hrj, _⟩
-    · rw [hpe, hri]; exact edgePoint_zero_right _ _ _ _
-    · rw [hpe, hri, hrj]
-  obtain ⟨g', hg', gi', gj', gk'⟩ := triplet_on_edge r'.2 hd' i' j' hij' s t hs ht hne
-  rw [← hpe] at hg
-  rw [← hpe'] at hg'
-  obtain ⟨c0, c1, c2, hc, h01, h02, h12⟩ := hch
-  obtain ⟨d0, d1, d2, hc', k01, k02, k12⟩ := hch'
-  unfold tripletOut
-  rw [← handle_some_eq_gains hg, ← handle_some_eq_gains hg', hc, hc',
-    remap3_supported n c c0 c1 c2 h01 h02 h12 g i j hij gk, remap3_supported n c d0 d1 d2 k01 k02 k12 g' i' j' hij' gk',
-    gi, gj, gi', gj', ← hc, ← hc', hci]
-  congr 1
-  rcases hj with rfl | ⟨_, hcj⟩
-  · simp
-  · rw [hcj]
-
-theorem tripletOut_length (n : Nat) (r : TRegion) (p : Vec3 ℝ) : (tripletOut n r p).length = n := by
-  simp [tripletOut, scatter_length, zeros]
-
-/-- the acceptance set of a triplet region at slack 0, without the origin -/
-def TRegion.cone (r : TRegion) : Set (Vec3 ℝ) := {p | Triplet.acceptsE 0 r.2 p} ∩ {p | p ≠ (0, 0, 0)}
-
-/-- every output channel of an invertible triplet is continuous in the direction away from the origin -/
-theorem tripletOut_continuousOn_ne (n c : Nat) (r : TRegion) (hd : det3 r.2 ≠ 0) :
-    ContinuousOn (fun p => (tripletOut n r p).getD c 0) {p | p ≠ (0, 0, 0)} := by
-  have h1 : ContinuousOn (fun p : Vec3 ℝ => Triplet.gains r.2 p) {p | p ≠ (0, 0, 0)} :=
-    (triplet_continuousOn r.2).mono (fun p hp => pv_ne_zero r.2 hd p hp)
-  exact (continuous_remap3 r.1 n c).comp_continuousOn h1
-
-theorem tripletOut_continuousOn (n c : Nat) (r : TRegion) (hd : det3 r.2 ≠ 0) :
-    ContinuousOn (fun p => (tripletOut n r p).getD c 0) r.cone :=
-  (tripletOut_continuousOn_ne n c r hd).mono (fun _ hp => hp.2)
-
-/-- IDEALISED (acceptance slack 0 instead of the code's −1e-11) and for triplet regions only.
-    A panner whose regions are invertible triplets with three distinct output channels each, any two of which meet
-    only in a shared face: every output channel's gain is a continuous function of the direction on the union of the
-    cones (origin removed), and there the panner's answer is the answer of ANY triplet containing the direction.
-    Missing for the property: (1) the code's slack −1e-11 makes neighbouring acceptance sets overlap in slivers on
-    which the answers differ by O(1e-11) (`triplet_sliver_bound`), so the code's function is continuous only up to
-    jumps of that size; (2) quad and n-gon regions; (3) that the cones cover the sphere (C05). -/
-theorem panner_continuousOn_triplets_partial (regions : List TRegion) (n : Nat)
-    (hdet : ∀ r ∈ regions, det3 r.2 ≠ 0) (hch : ∀ r ∈ regions, r.chOk)
-    (hface : ∀ r ∈ regions, ∀ r' ∈ regions, r ≠ r' → MeetInSharedFace r r') :
-    (∀ c, ContinuousOn (fun p => ((tripletPannerE 0 regions n p).map (·.getD c 0)).getD 0)
-      {p | ∃ r ∈ regions, p ∈ r.cone}) ∧
-    (∀ r ∈ regions, ∀ p ∈ r.cone, tripletPannerE 0 regions n p = some (tripletOut n r p)) ∧
-    (∀ p, p ≠ (0, 0, 0) → (¬ ∃ r ∈ regions, p ∈ r.cone) → tripletPannerE 0 regions n p = none) := by
-  -- the candidate list of the panner at p ≠ 0, per output coordinate, is the abstract candidate list
-  have hagree : ∀ r ∈ regions, ∀ r' ∈ regions, ∀ p, p ∈ r.cone → p ∈ r'.cone → ∀ c,
-      (tripletOut n r p).getD c 0 = (tripletOut n r' p).getD c 0 := by
-    intro r hr r' hr' p hp hp' c
-    by_cases e : r = r'
-    · rw [e]
-    · exact shared_face_agreement r r' (hdet r hr) (hdet r' hr') (hch r hr) (hch r' hr') (hface r hr r' hr' e) n c p
-        hp.2 hp.1 hp'.1
-  have hcand : ∀ p, p ≠ (0, 0, 0) → ∀ (f : List ℝ → ℝ) (l : List TRegion),
-      (l.map fun r => remap r.1 n ((Triplet.handleE 0 r.2 p).map vecList)).map (Option.map f) =
-        candidates (l.map fun r => (r.cone, fun q => f (tripletOut n r q))) p := by
-    intro p hp f l
-    simp only [candidates, List.map_map]
-    apply List.map_congr_left
-    intro r _
-    by_cases hacc : Triplet.acceptsE 0 r.2 p
-    · have : p ∈ r.cone := ⟨hacc, hp⟩
-      simp [Triplet.handleE, hacc, remap, this, tripletOut]
-    · have : p ∉ r.cone := fun h => hacc h.1
-      simp [Triplet.handleE, hacc, remap, this]
-  have hU : ∀ f : List ℝ → ℝ, accUnion (regions.map fun r => (r.cone, fun q => f (tripletOut n r q))) =
-      {p | ∃ r ∈ regions, p ∈ r.cone} := by
-    intro f; ext p; simp [accUnion]
-  refine ⟨fun c => ?_, ?_, ?_⟩
-  · set rs : List (Set (Vec3 ℝ) × (Vec3 ℝ → ℝ)) := regions.map fun r => (r.cone, fun q => (tripletOut n r q).getD c 0)
-      with hrs
-    have main := firstAccept_continuousOn_aux {p : Vec3 ℝ | p ≠ (0, 0, 0)} rs 0
-      (by
-        intro x hx
-        obtain ⟨r, _, rfl⟩ := List.mem_map.mp hx
-        exact ⟨_, triplet_accept_isClosed 0 r.2, rfl⟩)
-      (by
-        intro x hx
-        obtain ⟨r, hr, rfl⟩ := List.mem_map.mp hx
-        exact tripletOut_continuousOn n c r (hdet r hr))
-      (by
-        intro x hx x' hx' p hp hp'
-        obtain ⟨r, hr, rfl⟩ := List.mem_map.mp hx
-        obtain ⟨r', hr', rfl⟩ := List.mem_map.mp hx'
-        exact hagree r hr r' hr' p hp hp' c)
-    rw [hrs, hU (fun l => l.getD c 0)] at main
-    refine main.1.congr ?_
-    intro p hp
-    obtain ⟨r, _, hpr⟩ := hp
-    simp only [tripletPannerE, firstAccept_map, hcand p hpr.2 (fun l => l.getD c 0) regions]
-  · intro r hr p hp
-    have hsome : ∀ c, (tripletPannerE 0 regions n p).map (·.getD c 0) = some ((tripletOut n r p).getD c 0) := by
-      intro c
-      simp only [tripletPannerE, firstAccept_map, hcand p hp.2 (fun l => l.getD c 0) regions]
-      exact firstAccept_eq_of_agree _ p _ ⟨_, List.mem_map.mpr ⟨r, hr, rfl⟩, hp⟩ (by
-        intro x hx hpx
-        obtain ⟨r', hr', rfl⟩ := List.mem_map.mp hx
-        exact hagree r' hr' r hr p hpx hp c)
-    cases hres : tripletPannerE 0 regions n p with
-    | none => have := hsome 0; rw [hres] at this; simp at this
-    | some out =>
-      congr 1
-      have hmem := firstAccept_mem hres
-      obtain ⟨r', hr', he⟩ := List.mem_map.mp hmem
-      have hlen : out.length = n := by
-        cases hh : Triplet.handleE 0 r'.2 p with
-        | none => rw [hh] at he; simp [remap] at he
-        | some g =>
-          rw [hh] at he
-          simp only [remap, Option.map_some, Option.some.injEq] at he
-          rw [← he]; simp [scatter_length, zeros]
-      apply list_ext_getD (by rw [hlen, tripletOut_length])
-      intro c
-      have := hsome c
-      rw [hres] at this
-      simpa using this
-  · intro p hp hnone
-    unfold tripletPannerE
-    rw [firstAccept_eq_none]
-    intro x hx
-    obtain ⟨r, hr, rfl⟩ := List.mem_map.mp hx
-    have : ¬ Triplet.acceptsE 0 r.2 p := fun h => hnone ⟨r, hr, h, hp⟩
-    simp [Triplet.handleE, this, remap]
-
 
 /-! ### the pasting theorem (headline; proof in Proofs/C12Paste.lean) -/
 
@@ -1337,6 +486,686 @@ example (ρ : Vec3 ℝ → Nat → Option ℝ × Option ℝ) (c : Nat) :=
   two_triplet_panner_jump_bound exP (by norm_num [det3, exP]) 0 0 1 (by norm_num) (by norm_num [nsq, exP])
     (by norm_num [nsq, exP, comb3, add3, smul3]) 0 1 2 3 4 c (by decide) (by decide) (by decide) (by decide) (by decide) ρ
 
+
+/-! ### the virtual n-gon and panners of triplets and n-gons at slack 0 (headlines; proofs in Proofs/C12Ngon.lean) -/
+
+/-- **THE N-GON HANDLER IS CONTINUOUS ON ITS ACCEPTANCE SET (slack 0).**  `VirtualNgon.handleE 0` (`ngon_handleE_eps`: with
+    the code's −1e-11 it is `VirtualNgon.handle`).  Inner triplets `(o_i, o_{i+1}, centre)` invertible, local channels
+    `[o_i, o_{i+1}, m]`, positive centre downmix, any two inner triplets meet only in a shared face: every output coordinate
+    is continuous on the union of the inner cones, where the answer is the mixed answer of ANY accepting inner triplet. -/
+theorem ngon_handle_continuousOn (g : VirtualNgon ℝ)
+    (hdet : ∀ r ∈ g.regions, det3 r.2 ≠ 0) (hch : ∀ r ∈ g.regions, InnerChOk g.centreDownmix.length r)
+    (hcd : ∀ d ∈ g.centreDownmix, 0 < d)
+    (hface : ∀ r ∈ g.regions, ∀ r' ∈ g.regions, r ≠ r' → MeetInSharedFace r r') :
+    (∀ c, ContinuousOn (fun p => ((g.handleE 0 p).map (·.getD c 0)).getD 0) {p | ∃ r ∈ g.regions, p ∈ TRegion.cone r}) ∧
+    (∀ r ∈ g.regions, ∀ p ∈ TRegion.cone r, g.handleE 0 p =
+      some (VirtualNgon.mix g.centreDownmix (tripletOut (g.centreDownmix.length + 1) r p))) ∧
+    (∀ p, p ≠ (0, 0, 0) → (¬ ∃ r ∈ g.regions, p ∈ TRegion.cone r) → g.handleE 0 p = none) :=
+  ngon_handle_continuousOn_aux g hdet hch hcd hface
+
+/-- **A PANNER OF TRIPLETS AND N-GONS AT SLACK 0** — `panner_continuousOn_triplets_partial` extended to VirtualNgon regions.
+    PARTIAL for the same reasons: slack 0 instead of the code's −1e-11, no QuadRegions, coverage not included. -/
+theorem panner_continuousOn_tri_ngon_partial (regions : List (Region ℝ)) (n : Nat)
+    (hok : ∀ R ∈ regions, R.tnOk)
+    (hcross : ∀ R ∈ regions, ∀ R' ∈ regions, R ≠ R' → ∀ X ∈ R.tcells, ∀ Y ∈ R'.tcells, MeetInOuterFace R X R' Y) :
+    (∀ c, ContinuousOn (fun p => ((pannerTNE 0 regions n p).map (·.getD c 0)).getD 0)
+      {p | ∃ R ∈ regions, ∃ X ∈ R.tcells, p ∈ TRegion.cone X}) ∧
+    (∀ R ∈ regions, ∀ X ∈ R.tcells, ∀ p ∈ TRegion.cone X,
+      pannerTNE 0 regions n p = some (R.outMap n X.1 (Triplet.gains X.2 p))) ∧
+    (∀ p, p ≠ (0, 0, 0) → (¬ ∃ R ∈ regions, ∃ X ∈ R.tcells, p ∈ TRegion.cone X) → pannerTNE 0 regions n p = none) :=
+  panner_continuousOn_tri_ngon_aux regions n hok hcross
+
+/-! ### the whole all-triplet panner with the code's threshold -/
+
+theorem regionAnswer_getElem (regs : List (Region ℝ)) (n : Nat) (ρ : Vec3 ℝ → Nat → Option ℝ × Option ℝ) (k : Nat)
+    (hk : k < regs.length) (p : Vec3 ℝ) :
+    regionAnswer regs n ρ k p = remap regs[k].channels n (regs[k].handle (ρ p k) p) := by
+  simp [regionAnswer, PointSourcePanner.results, List.getD_eq_getElem?_getD, hk]
+
+/-- **END TO END FOR A WHOLE LIST OF TRIPLETS, the code's own threshold −1e-11**, on the model's
+    `PointSourcePanner.handle`: invertible triplets any two of which, where both return a result at a direction of norm about
+    1, differ by at most `η` on every output channel (`pair_out_bound`: `η = 45·(3α+1)·κ·1e-11` from a separating plane).
+    Then every output channel's gain varies, near every direction accepted by some triplet, by at most `η + δ` for every
+    `δ > 0`: the composed function is continuous up to jumps of `η`. -/
+theorem panner_jump_bound_triplets (regions : List TRegion) (n : Nat) (η : ℝ)
+    (hdet : ∀ r ∈ regions, det3 r.2 ≠ 0)
+    (hpair : ∀ r ∈ regions, ∀ r' ∈ regions, ∀ p, 3 / 4 ≤ nsq p → Triplet.handle r.2 p ≠ none →
+      Triplet.handle r'.2 p ≠ none → ∀ c, |(tripletOut n r p).getD c 0 - (tripletOut n r' p).getD c 0| ≤ η)
+    (ρ : Vec3 ℝ → Nat → Option ℝ × Option ℝ) (c : Nat) :
+    let regs := regions.map fun r => Region.triplet r.1 r.2
+    let S := {p : Vec3 ℝ | 3 / 4 ≤ nsq p}
+    let U := {p | p ∈ S ∧ ∃ k < regs.length, regionAnswer regs n ρ k p ≠ none}
+    let G := fun p => ((PointSourcePanner.handle regs n (ρ p) p).map (·.getD c 0)).getD 0
+    ∀ x ∈ U, ∀ δ > 0, ∀ᶠ y in nhdsWithin x U, |G y - G x| ≤ η + δ := by
+  intro regs S
+  have hlen : regs.length = regions.length := by simp [regs]
+  have key : ∀ k (hk : k < regions.length), ∀ p,
+      (regionAnswer regs n ρ k p ≠ none ↔ Triplet.handle regions[k].2 p ≠ none) ∧
+        (Triplet.handle regions[k].2 p ≠ none → regionAnswer regs n ρ k p = some (tripletOut n regions[k] p)) := by
+    intro k hk p
+    have hk' : k < regs.length := by rw [hlen]; exact hk
+    rw [regionAnswer_getElem regs n ρ k hk' p]
+    have : regs[k] = Region.triplet regions[k].1 regions[k].2 := by simp [regs]
+    rw [this]
+    exact triplet_answer _ _ _ _ _
+  apply panner_jump_bound_of_regions regs n ρ S c η
+  · intro k hk
+    rw [hlen] at hk
+    have hcl := triplet_accept_isClosed_code (regions[k]).2
+    refine ⟨_, hcl, ?_⟩
+    ext p
+    have := (key k hk p).1
+    simp only [mem_inter_iff, mem_ofPred_eq, this]
+  · intro k hk
+    rw [hlen] at hk
+    refine ((tripletOut_continuousOn_ne n c regions[k] (hdet _ (List.getElem_mem hk))).mono ?_).congr ?_
+    · intro p hp; exact nsq_ne_zero hp.2
+    · intro p hp
+      have := (key k hk p).2 ((key k hk p).1.mp hp.1)
+      simp only [this, Option.map_some, Option.getD_some]
+  · intro k hk j hj p hpS hk' hj'
+    rw [hlen] at hk hj
+    have a0 := (key k hk p).1.mp hk'
+    have a1 := (key j hj p).1.mp hj'
+    rw [(key k hk p).2 a0, (key j hj p).2 a1]
+    simp only [Option.map_some, Option.getD_some]
+    exact hpair _ (List.getElem_mem hk) _ (List.getElem_mem hj) p hpS a0 a1 c
+
+/-! ### the regenerated tables: "regions meet only in shared faces", decided by the kernel -/
+
+open Faces in
+theorem faces_ok_0 : facesCertOk Earverif.Gen.C05Cover.scaleExp Earverif.Gen.C05.L0 Earverif.Gen.C12Faces.F0 = true := by decide +kernel
+open Faces in
+theorem faces_ok_1 : facesCertOk Earverif.Gen.C05Cover.scaleExp Earverif.Gen.C05.L1 Earverif.Gen.C12Faces.F1 = true := by decide +kernel
+open Faces in
+theorem faces_ok_2 : facesCertOk Earverif.Gen.C05Cover.scaleExp Earverif.Gen.C05.L2 Earverif.Gen.C12Faces.F2 = true := by decide +kernel
+open Faces in
+theorem faces_ok_3 : facesCertOk Earverif.Gen.C05Cover.scaleExp Earverif.Gen.C05.L3 Earverif.Gen.C12Faces.F3 = true := by decide +kernel
+open Faces in
+theorem faces_ok_4 : facesCertOk Earverif.Gen.C05Cover.scaleExp Earverif.Gen.C05.L4 Earverif.Gen.C12Faces.F4 = true := by decide +kernel
+open Faces in
+theorem faces_ok_5 : facesCertOk Earverif.Gen.C05Cover.scaleExp Earverif.Gen.C05.L5 Earverif.Gen.C12Faces.F5 = true := by decide +kernel
+open Faces in
+theorem faces_ok_6 : facesCertOk Earverif.Gen.C05Cover.scaleExp Earverif.Gen.C05.L6 Earverif.Gen.C12Faces.F6 = true := by decide +kernel
+open Faces in
+theorem faces_ok_7 : facesCertOk Earverif.Gen.C05Cover.scaleExp Earverif.Gen.C05.L7 Earverif.Gen.C12Faces.F7 = true := by decide +kernel
+open Faces in
+theorem faces_ok_8 : facesCertOk Earverif.Gen.C05Cover.scaleExp Earverif.Gen.C05.L8 Earverif.Gen.C12Faces.F8 = true := by decide +kernel
+open Faces in
+theorem faces_ok_9 : facesCertOk Earverif.Gen.C05Cover.scaleExp Earverif.Gen.C05.L9 Earverif.Gen.C12Faces.F9 = true := by decide +kernel
+
+open Faces in
+/-- Table obligation: for each of the ten nominal layouts the regenerated certificate (`Gen/C12_Faces.lean`, from the real
+    configured panner) passes `Faces.facesCertOk` against the regenerated region table: every pair of triplet cells
+    (Triplet regions, inner triplets of the n-gons) is separated strictly by a plane through their shared positions
+    (exact integer arithmetic on the binary64 coordinates), with the constants `alpha`, `kappa` of the sliver bound. -/
+theorem faces_tables_ok :
+    facesTablesOk Earverif.Gen.C05Cover.scaleExp Earverif.Gen.C05.layouts Earverif.Gen.C12Faces.faces = true := by
+  simp only [facesTablesOk, Earverif.Gen.C05.layouts, Earverif.Gen.C12Faces.faces, List.length_cons, List.length_nil,
+    List.zip_cons_cons, List.zip_nil_right, List.all_cons, List.all_nil, faces_ok_0, faces_ok_1, faces_ok_2, faces_ok_3,
+    faces_ok_4, faces_ok_5, faces_ok_6, faces_ok_7, faces_ok_8, faces_ok_9, Bool.and_true, beq_self_eq_true]
+
+open Faces in
+theorem faces_spec_of_tables (l : RawLayout) (hl : l ∈ Earverif.Gen.C05.layouts) :
+    ∃ cert ∈ Earverif.Gen.C12Faces.faces, CertSpec Earverif.Gen.C05Cover.scaleExp l cert := by
+  have h := faces_tables_ok
+  unfold facesTablesOk at h
+  simp only [Bool.and_eq_true, beq_iff_eq, List.all_eq_true] at h
+  obtain ⟨i, hi, rfl⟩ := List.mem_iff_getElem.mp hl
+  have hi' : i < Earverif.Gen.C12Faces.faces.length := h.1 ▸ hi
+  refine ⟨Earverif.Gen.C12Faces.faces[i], List.getElem_mem hi', facesCertOk_spec _ _ _ (h.2 (_, _) ?_)⟩
+  rw [List.mem_iff_getElem]
+  exact ⟨i, by simp [hi, hi'], by simp⟩
+
+/-- the Triplet regions of a table as (output channels, positions) -/
+noncomputable def tripletTR1 (r : RawRegion) : Option TRegion :=
+  if r.kind == 0 then
+    match r.pos with
+    | [a, b, d] => some (r.ch, ((p3 a : Vec3 ℝ), p3 b, p3 d))
+    | _ => none
+  else none
+
+noncomputable def tripletTR (l : RawLayout) : List TRegion := l.regions.filterMap tripletTR1
+
+/-- ... they ARE the Triplet regions of the modelled panner (`RawRegion.toRegion`), in evaluation order -/
+theorem tripletTR_regions (l : RawLayout) :
+    (tripletTR l).map (fun r => Region.triplet r.1 r.2) =
+      l.regions.filterMap (fun r => if r.kind == 0 then RawRegion.toRegion (α := ℝ) r else none) := by
+  unfold tripletTR
+  rw [List.map_filterMap]
+  apply List.filterMap_congr
+  intro r _
+  unfold tripletTR1 RawRegion.toRegion
+  by_cases k0 : r.kind = 0
+  · have k0' : (r.kind == 0) = true := by simpa using k0
+    simp only [k0]
+    match r.pos with
+    | [] => rfl
+    | [_] => rfl
+    | [_, _] => rfl
+    | [_, _, _] => rfl
+    | _ :: _ :: _ :: _ :: _ => rfl
+  · have k0' : (r.kind == 0) = false := by simpa using k0
+    simp only [k0', Bool.false_eq_true, if_false, Option.map_none]
+
+open Faces in
+theorem tripletTR_cell {l : RawLayout} {X : TRegion} (hX : X ∈ tripletTR l) :
+    ∃ k r, l.regions[k]? = some r ∧ r.kind = 0 ∧ tableCell l k 0 = some X := by
+  unfold tripletTR at hX
+  rw [List.mem_filterMap] at hX
+  obtain ⟨r, hr, hX⟩ := hX
+  obtain ⟨k, hk⟩ := List.mem_iff_getElem?.mp hr
+  unfold tripletTR1 at hX
+  by_cases k0 : r.kind = 0
+  · have k0' : (r.kind == 0) = true := by simpa using k0
+    simp only [k0', if_true] at hX
+    split at hX
+    · rename_i a b d hpos
+      rw [← Option.some.inj hX]
+      exact ⟨k, r, hk, k0, triplet_table hk k0 hpos⟩
+    · exact absurd hX (by simp)
+  · have k0' : (r.kind == 0) = false := by simpa using k0
+    simp [k0'] at hX
+
+open Faces in
+/-- what the certificate gives for two Triplet regions of a nominal layout -/
+theorem tables_triplet_pair (l : RawLayout) (hl : l ∈ Earverif.Gen.C05.layouts) :
+    ∃ cert ∈ Earverif.Gen.C12Faces.faces, 1 ≤ cert.kappa ∧
+      (∀ X ∈ tripletTR l, det3 X.2 ≠ 0 ∧ X.chOk ∧ X.rowsOk) ∧
+      (∀ X ∈ tripletTR l, ∀ Y ∈ tripletTR l, X ≠ Y →
+        MeetInSharedFace X Y ∧ (PairData X Y cert.alpha cert.kappa ∨ PairData Y X cert.alpha cert.kappa)) := by
+  obtain ⟨cert, hcert, hs⟩ := faces_spec_of_tables l hl
+  refine ⟨cert, hcert, hs.kappa1, ?_, ?_⟩
+  · intro X hX
+    obtain ⟨k, r, _, _, ht⟩ := tripletTR_cell hX
+    obtain ⟨c, hc, _, _, rfl⟩ := cell_of_table hs ht
+    exact ⟨(hs.cellsOk c hc).det, (hs.cellsOk c hc).chOk, (hs.cellsOk c hc).rowsOk⟩
+  · intro X hX Y hY hne
+    obtain ⟨k, r, hr, k0, ht⟩ := tripletTR_cell hX
+    obtain ⟨k', r', hr', k0', ht'⟩ := tripletTR_cell hY
+    have hkk : k ≠ k' := by
+      intro e; subst e
+      rw [ht] at ht'
+      exact hne (Option.some.inj ht')
+    obtain ⟨c, c', hc, hc', rfl, rfl, hck, hck', _, m2, m3⟩ := faces_sound hs ht ht' (Or.inl hkk)
+    have kc : c.kind = 0 := by
+      obtain ⟨_, _, _, r2, hr2, hkind⟩ := derive_table _ l c.region c.fan c (hs.matches_ c hc)
+      rw [hck, hr] at hr2
+      have : r2 = r := (Option.some.inj hr2).symm
+      subst this
+      rcases hkind with ⟨_, h, _⟩ | ⟨h, _, _⟩
+      · exact h
+      · rw [k0] at h; exact absurd h (by decide)
+    have kc' : c'.kind = 0 := by
+      obtain ⟨_, _, _, r2, hr2, hkind⟩ := derive_table _ l c'.region c'.fan c' (hs.matches_ c' hc')
+      rw [hck', hr'] at hr2
+      have : r2 = r' := (Option.some.inj hr2).symm
+      subst this
+      rcases hkind with ⟨_, h, _⟩ | ⟨h, _, _⟩
+      · exact h
+      · rw [k0'] at h; exact absurd h (by decide)
+    exact ⟨meet_of_outer (hs.cellsOk c hc) (hs.cellsOk c' hc') kc kc' (m2 hkk), m3 kc kc'⟩
+
+/-- **THE TRIPLET REGIONS OF THE TEN NOMINAL LAYOUTS MEET ONLY IN SHARED FACES** (the hypothesis of
+    `panner_continuousOn_triplets_partial`, until now checked by harness/c12.py, now decided by the kernel on the regenerated
+    tables): every Triplet region is invertible with three distinct channels, and the exact cones of any two Triplet regions
+    of one layout have only a shared loudspeaker / a shared edge (or nothing) in common, on the same output channels. -/
+theorem tables_triplet_pairs_meet_in_faces (l : RawLayout) (hl : l ∈ Earverif.Gen.C05.layouts) :
+    (∀ X ∈ tripletTR l, det3 X.2 ≠ 0 ∧ X.chOk) ∧
+    (∀ X ∈ tripletTR l, ∀ Y ∈ tripletTR l, X ≠ Y → MeetInSharedFace X Y) := by
+  obtain ⟨cert, _, _, h1, h2⟩ := tables_triplet_pair l hl
+  exact ⟨fun X hX => ⟨(h1 X hX).1, (h1 X hX).2.1⟩, fun X hX Y hY hne => (h2 X hX Y hY hne).1⟩
+
+/-- ... hence the Triplet regions of every nominal layout, as a panner at slack 0, are continuous on the union of their
+    cones (instance of `panner_continuousOn_triplets_partial` with every hypothesis discharged from the tables) -/
+theorem tables_triplet_panner_continuousOn (l : RawLayout) (hl : l ∈ Earverif.Gen.C05.layouts) (c : Nat) :
+    ContinuousOn (fun p => ((tripletPannerE 0 (tripletTR l) l.nInner p).map (·.getD c 0)).getD 0)
+      {p | ∃ r ∈ tripletTR l, p ∈ r.cone} := by
+  obtain ⟨h1, h2⟩ := tables_triplet_pairs_meet_in_faces l hl
+  exact (panner_continuousOn_triplets_partial (tripletTR l) l.nInner (fun r hr => (h1 r hr).1) (fun r hr => (h1 r hr).2) h2).1 c
+
+/-- **THE TRIPLET REGIONS OF A NOMINAL LAYOUT WITH THE CODE'S THRESHOLD −1e-11**: on the model's `PointSourcePanner.handle`
+    over the Triplet regions of the regenerated table (`tripletTR_regions`: they are the modelled panner's Triplet regions),
+    every output channel is continuous up to jumps of `η = 45·(3·alpha+1)·kappa·1e-11`, `alpha`, `kappa` the kernel-checked
+    constants of the layout's certificate (at most `45·16·30·1e-11 < 2.2e-7` on the ten tables) — whatever the row order
+    of the triplets, and including the slivers around shared vertices.  QuadRegions and n-gons are not in this panner. -/
+theorem tables_triplet_panner_jump_bound (l : RawLayout) (hl : l ∈ Earverif.Gen.C05.layouts)
+    (ρ : Vec3 ℝ → Nat → Option ℝ × Option ℝ) (c : Nat) :
+    ∃ cert ∈ Earverif.Gen.C12Faces.faces,
+      let η : ℝ := 45 * ((3 * (cert.alpha : ℝ) + 1) * (cert.kappa : ℝ)) * (1 / 100000000000)
+      let regs := (tripletTR l).map fun r => Region.triplet r.1 r.2
+      let S := {p : Vec3 ℝ | 3 / 4 ≤ nsq p}
+      let U := {p | p ∈ S ∧ ∃ k < regs.length, regionAnswer regs l.nInner ρ k p ≠ none}
+      let G := fun p => ((PointSourcePanner.handle regs l.nInner (ρ p) p).map (·.getD c 0)).getD 0
+      ∀ x ∈ U, ∀ δ > 0, ∀ᶠ y in nhdsWithin x U, |G y - G x| ≤ η + δ := by
+  obtain ⟨cert, hcert, hk1, h1, h2⟩ := tables_triplet_pair l hl
+  refine ⟨cert, hcert, ?_⟩
+  intro η
+  have hκ1 : (1 : ℝ) ≤ (cert.kappa : ℝ) := by exact_mod_cast hk1
+  have hα0 : (0 : ℝ) ≤ (cert.alpha : ℝ) := Nat.cast_nonneg _
+  have hη0 : 0 ≤ η := by
+    simp only [η]; positivity
+  apply panner_jump_bound_triplets (tripletTR l) l.nInner η (fun r hr => (h1 r hr).1)
+  intro X hX Y hY p hp hx hy c'
+  by_cases e : X = Y
+  · rw [e]; simpa using hη0
+  · obtain ⟨_, hd⟩ := h2 X hX Y hY e
+    rcases hd with hd | hd
+    · exact pair_out_bound l.nInner X Y (h1 X hX).2.1 (h1 Y hY).2.1 (h1 X hX).2.2 (h1 Y hY).2.2 _ _ hκ1 hα0 hd p hp hx hy c'
+    · rw [abs_sub_comm]
+      exact pair_out_bound l.nInner Y X (h1 Y hY).2.1 (h1 X hX).2.1 (h1 Y hY).2.2 (h1 X hX).2.2 _ _ hκ1 hα0 hd p hp hy hx c'
+
+open Faces in
+/-- **EVERY VIRTUAL N-GON OF THE TEN NOMINAL LAYOUTS IS CONTINUOUS ON ITS ACCEPTANCE SET (slack 0)**: instance of
+    `ngon_handle_continuousOn` with every hypothesis discharged from the regenerated tables (`ngonOf r` is the VirtualNgon
+    `RawRegion.toRegion` builds). -/
+theorem tables_ngon_continuousOn (l : RawLayout) (hl : l ∈ Earverif.Gen.C05.layouts) (r : RawRegion) (hr : r ∈ l.regions)
+    (k1 : r.kind = 1) (c : Nat) :
+    ContinuousOn (fun p => (((ngonOf r).handleE 0 p).map (·.getD c 0)).getD 0)
+      {p | ∃ X ∈ (ngonOf r).regions, p ∈ TRegion.cone X} := by
+  obtain ⟨cert, _, hs⟩ := faces_spec_of_tables l hl
+  obtain ⟨k, hk⟩ := List.mem_iff_getElem?.mp hr
+  obtain ⟨_, h2, h3, h4, h5, _, _⟩ := ngon_table hs hk k1
+  exact (ngon_handle_continuousOn (ngonOf r) h2 h3 h4 h5).1 c
+
+
+section QuadCone
+open Cover Topology
+
+/-! ### the quad on the cone of its corners (closed-form root selection `GainCalc.quadRoot`, sign certificate) -/
+
+/-- a function selected as THE zero in `[0, 1]` of a jointly continuous family is continuous -/
+theorem continuousOn_of_unique_zero {X : Type} [TopologicalSpace X] (K : Set X) (F : X → ℝ → ℝ)
+    (hF : Continuous fun z : X × ℝ => F z.1 z.2) (x : X → ℝ)
+    (hx : ∀ p ∈ K, x p ∈ Icc (0 : ℝ) 1 ∧ F p (x p) = 0)
+    (huniq : ∀ p ∈ K, ∀ t ∈ Icc (0 : ℝ) 1, F p t = 0 → t = x p) : ContinuousOn x K := by
+  intro p0 hp0
+  rw [ContinuousWithinAt, tendsto_nhds]
+  intro U hU hxU
+  -- the compact set of parameters away from U
+  set C : Set ℝ := Icc 0 1 \ U with hC
+  have hCc : IsCompact C := isCompact_Icc.diff hU
+  set N : Set (X × ℝ) := {z | F z.1 z.2 ≠ 0} with hN
+  have hNo : IsOpen N := isOpen_ne_fun hF continuous_const
+  have hsub : ({p0} : Set X) ×ˢ C ⊆ N := by
+    rintro ⟨p, t⟩ ⟨hp, ht⟩
+    simp only [mem_singleton_iff] at hp
+    subst hp
+    intro h0
+    have := huniq p hp0 t ht.1 h0
+    exact ht.2 (this ▸ hxU)
+  obtain ⟨u, v, hu, _, hpu, hCv, huv⟩ := generalized_tube_lemma isCompact_singleton hCc hNo hsub
+  have hmem : u ∈ 𝓝 p0 := hu.mem_nhds (hpu rfl)
+  filter_upwards [nhdsWithin_le_nhds hmem, self_mem_nhdsWithin] with p hpu' hpK
+  by_contra hnot
+  have hxp := hx p hpK
+  have : x p ∈ C := ⟨hxp.1, hnot⟩
+  exact huv (mk_mem_prod hpu' (hCv this)) hxp.2
+
+/-- under the sign conditions of `roots_in_unit_pos` the root in `[0, 1]` is unique -/
+theorem unit_root_unique (A B C : ℝ) (hm : A * eps ^ 2 - B * eps + C ≤ 0)
+    (hp : 0 ≤ A * (1 + eps) ^ 2 + B * (1 + eps) + C) (hne : ¬(A = 0 ∧ B = 0 ∧ C = 0))
+    (t1 t2 : ℝ) (h1 : 0 ≤ t1) (h1' : t1 ≤ 1) (h2 : 0 ≤ t2) (h2' : t2 ≤ 1)
+    (hf1 : A * t1 ^ 2 + B * t1 + C = 0) (hf2 : A * t2 ^ 2 + B * t2 + C = 0) : t1 = t2 := by
+  by_contra hne12
+  have he := eps_pos
+  have hd : t1 - t2 ≠ 0 := sub_ne_zero.mpr hne12
+  -- B = −A (t1 + t2), C = A t1 t2
+  have hB : B = -A * (t1 + t2) := by
+    have : (t1 - t2) * (A * (t1 + t2) + B) = 0 := by linear_combination hf1 - hf2
+    have := (mul_eq_zero.mp this).resolve_left hd
+    linarith
+  have hCc : C = A * (t1 * t2) := by
+    rw [hB] at hf1; linear_combination hf1
+  have e1 : A * eps ^ 2 - B * eps + C = A * ((eps + t1) * (eps + t2)) := by rw [hB, hCc]; ring
+  have e2 : A * (1 + eps) ^ 2 + B * (1 + eps) + C = A * ((1 + eps - t1) * (1 + eps - t2)) := by rw [hB, hCc]; ring
+  rw [e1] at hm
+  rw [e2] at hp
+  have p1 : 0 < (eps + t1) * (eps + t2) := mul_pos (by linarith) (by linarith)
+  have p2 : 0 < (1 + eps - t1) * (1 + eps - t2) := mul_pos (by linarith) (by linarith)
+  have hA1 : A ≤ 0 := by
+    by_contra h; rw [not_le] at h
+    have := mul_pos h p1; linarith
+  have hA2 : 0 ≤ A := by
+    by_contra h; rw [not_le] at h
+    have := mul_neg_of_neg_of_pos h p2; linarith
+  have hA : A = 0 := le_antisymm hA1 hA2
+  exact hne ⟨hA, by rw [hB, hA]; ring, by rw [hCc, hA]; ring⟩
+
+/-- the corner cone of ordered corners `a b c d`, origin removed -/
+def cornerCone (a b c d : Vec3 ℝ) : Set (Vec3 ℝ) :=
+  {p | p ≠ (0, 0, 0) ∧ ∃ ga gb gc gd : ℝ, 0 ≤ ga ∧ 0 ≤ gb ∧ 0 ≤ gc ∧ 0 ≤ gd ∧ p = comb4 ga gb gc gd a b c d}
+
+/-- the pan quadratic of the axis with ordered corners `a b c d` at direction `p`, evaluated at `t` -/
+noncomputable def panEval (a b c d p : Vec3 ℝ) (t : ℝ) : ℝ :=
+  (QuadRegion.panPoly a b c d p).1 * t ^ 2 + (QuadRegion.panPoly a b c d p).2.1 * t + (QuadRegion.panPoly a b c d p).2.2
+
+theorem continuous_panEval (a b c d : Vec3 ℝ) : Continuous fun z : Vec3 ℝ × ℝ => panEval a b c d z.1 z.2 := by
+  obtain ⟨a0, a1, a2⟩ := a
+  obtain ⟨b0, b1, b2⟩ := b
+  obtain ⟨c0, c1, c2⟩ := c
+  obtain ⟨d0, d1, d2⟩ := d
+  simp only [panEval, QuadRegion.panPoly, dot3, cross3, add3, sub3]
+  fun_prop
+
+/-- **One pan axis on the corner cone**: the pan value `quadRoot` selects is THE root in `[0, 1]` of the axis' quadratic. -/
+theorem axis_unique_root (a b c d : Vec3 ℝ) (s : ℝ) (hs : s = 1 ∨ s = -1)
+    (hD1 : 0 < s * det3 (a, b, c)) (hD2 : 0 < s * det3 (a, b, d)) (hD3 : 0 < s * det3 (a, c, d))
+    (hD4 : 0 < s * det3 (b, c, d)) (hax : AxisSigns s a b c d) (p : Vec3 ℝ) (hp : p ∈ cornerCone a b c d) :
+    ∃ x, GainCalc.quadRoot (QuadRegion.panPoly a b c d p) = some x ∧ x ∈ Icc (0 : ℝ) 1 ∧ panEval a b c d p x = 0 ∧
+      ∀ t ∈ Icc (0 : ℝ) 1, panEval a b c d p t = 0 → t = x := by
+  obtain ⟨hp0, ga, gb, gc, gd, ha, hb, hc, hd, rfl⟩ := hp
+  have hg : ¬(ga = 0 ∧ gb = 0 ∧ gc = 0 ∧ gd = 0) := by
+    rintro ⟨rfl, rfl, rfl, rfl⟩; exact hp0 (comb4_zero a b c d)
+  obtain ⟨x, hx, hx0, hx1, hfx⟩ := axis_root a b c d s hs ga gb gc gd ha hb hc hd hg hD1 hD2 hD3 hD4 hax
+  set p := comb4 ga gb gc gd a b c d with hp
+  have hfx' : panEval a b c d p x = 0 := by unfold panEval; rw [panPoly_eval]; exact hfx
+  refine ⟨x, hx, ⟨hx0, hx1⟩, hfx', ?_⟩
+  simp only [panEval] at hfx' ⊢
+  -- the sign conditions at −ε and 1+ε for this direction
+  have hlo : s * ((QuadRegion.panPoly a b c d p).1 - (QuadRegion.panPoly a b c d p).2.1 * bigE +
+      (QuadRegion.panPoly a b c d p).2.2 * bigE ^ 2) ≤ 0 := by
+    rw [panPoly_lo, hp, det3_comb4]
+    have := mul_nonneg ha (neg_nonneg.mpr hax.loa)
+    have := mul_nonneg hb (neg_nonneg.mpr hax.lob)
+    have := mul_nonneg hc (neg_nonneg.mpr hax.loc)
+    have := mul_nonneg hd (neg_nonneg.mpr hax.lod)
+    nlinarith
+  have hhi : 0 ≤ s * ((QuadRegion.panPoly a b c d p).1 * (bigE + 1) ^ 2 + (QuadRegion.panPoly a b c d p).2.1 * (bigE + 1) * bigE +
+      (QuadRegion.panPoly a b c d p).2.2 * bigE ^ 2) := by
+    rw [panPoly_hi, hp, det3_comb4]
+    have := mul_nonneg ha hax.hia
+    have := mul_nonneg hb hax.hib
+    have := mul_nonneg hc hax.hic
+    have := mul_nonneg hd hax.hid
+    nlinarith
+  -- not the zero polynomial: its values at 0 and 1 do not both vanish
+  have hC : s * (QuadRegion.panPoly a b c d p).2.2 = -(gb * (s * det3 (a, b, d)) + gc * (s * det3 (a, c, d))) := by
+    rw [panPoly_zero, hp, det3_comb4, det3_self13, det3_self23, det3_swap23 a b d, det3_swap23 a c d]; ring
+  have h1 : s * ((QuadRegion.panPoly a b c d p).1 + (QuadRegion.panPoly a b c d p).2.1 + (QuadRegion.panPoly a b c d p).2.2) =
+      ga * (s * det3 (a, b, c)) + gd * (s * det3 (b, c, d)) := by
+    rw [panPoly_one, hp, det3_comb4, det3_self13, det3_self23, det3_rot a b c]; ring
+  generalize (QuadRegion.panPoly a b c d p).1 = A at *
+  generalize (QuadRegion.panPoly a b c d p).2.1 = B at *
+  generalize (QuadRegion.panPoly a b c d p).2.2 = C at *
+  have hne3 : ¬(A = 0 ∧ B = 0 ∧ C = 0) := by
+    rintro ⟨rfl, rfl, rfl⟩
+    simp only [mul_zero, add_zero] at hC h1
+    have t1 := mul_nonneg hb hD2.le
+    have t2 := mul_nonneg hc hD3.le
+    have t3 := mul_nonneg ha hD1.le
+    have t4 := mul_nonneg hd hD4.le
+    have hb0 : gb = 0 := (mul_eq_zero.mp (by linarith : gb * (s * det3 (a, b, d)) = 0)).resolve_right hD2.ne'
+    have hc0 : gc = 0 := (mul_eq_zero.mp (by linarith : gc * (s * det3 (a, c, d)) = 0)).resolve_right hD3.ne'
+    have ha0 : ga = 0 := (mul_eq_zero.mp (by linarith : ga * (s * det3 (a, b, c)) = 0)).resolve_right hD1.ne'
+    have hd0 : gd = 0 := (mul_eq_zero.mp (by linarith : gd * (s * det3 (b, c, d)) = 0)).resolve_right hD4.ne'
+    exact hg ⟨ha0, hb0, hc0, hd0⟩
+  have hE := bigE_pos
+  have hE2 : 0 < bigE ^ 2 := by positivity
+  have e1 : ∀ A B C : ℝ, A * eps ^ 2 - B * eps + C = (A - B * bigE + C * bigE ^ 2) / bigE ^ 2 := by
+    intro A B C; rw [eps_bigE]; field_simp
+  have e2 : ∀ A B C : ℝ, A * (1 + eps) ^ 2 + B * (1 + eps) + C =
+      (A * (bigE + 1) ^ 2 + B * (bigE + 1) * bigE + C * bigE ^ 2) / bigE ^ 2 := by
+    intro A B C; rw [eps_bigE]; field_simp
+  have hsne : s ≠ 0 := by rcases hs with rfl | rfl <;> norm_num
+  intro t ht hft
+  rcases hs with rfl | rfl
+  · simp only [one_mul] at hlo hhi
+    exact unit_root_unique A B C (by rw [e1]; exact div_nonpos_of_nonpos_of_nonneg hlo hE2.le)
+      (by rw [e2]; exact div_nonneg hhi hE2.le) hne3 t x ht.1 ht.2 hx0 hx1 hft hfx'
+  · have hlo' : (-A) - (-B) * bigE + (-C) * bigE ^ 2 ≤ 0 := by linarith
+    have hhi' : 0 ≤ (-A) * (bigE + 1) ^ 2 + (-B) * (bigE + 1) * bigE + (-C) * bigE ^ 2 := by linarith
+    exact unit_root_unique (-A) (-B) (-C) (by rw [e1]; exact div_nonpos_of_nonpos_of_nonneg hlo' hE2.le)
+      (by rw [e2]; exact div_nonneg hhi' hE2.le)
+      (by rintro ⟨h1', h2', h3'⟩; exact hne3 ⟨by linarith, by linarith, by linarith⟩)
+      t x ht.1 ht.2 hx0 hx1 (by linarith) (by linarith)
+
+/-- the pan value of one axis (ordered corners `a b c d`) as a function of the direction; 0 if `quadRoot` finds none -/
+noncomputable def panValue (a b c d p : Vec3 ℝ) : ℝ := (GainCalc.quadRoot (QuadRegion.panPoly a b c d p)).getD 0
+
+/-- **One pan axis is continuous on the corner cone** under the sign certificate of that axis. -/
+theorem panValue_continuousOn (a b c d : Vec3 ℝ) (s : ℝ) (hs : s = 1 ∨ s = -1)
+    (hD1 : 0 < s * det3 (a, b, c)) (hD2 : 0 < s * det3 (a, b, d)) (hD3 : 0 < s * det3 (a, c, d))
+    (hD4 : 0 < s * det3 (b, c, d)) (hax : AxisSigns s a b c d) :
+    ContinuousOn (panValue a b c d) (cornerCone a b c d) ∧
+      ∀ p ∈ cornerCone a b c d, GainCalc.quadRoot (QuadRegion.panPoly a b c d p) = some (panValue a b c d p) ∧
+        panValue a b c d p ∈ Icc (0 : ℝ) 1 := by
+  have key : ∀ p ∈ cornerCone a b c d, GainCalc.quadRoot (QuadRegion.panPoly a b c d p) = some (panValue a b c d p) ∧
+      panValue a b c d p ∈ Icc (0 : ℝ) 1 ∧ panEval a b c d p (panValue a b c d p) = 0 ∧
+      ∀ t ∈ Icc (0 : ℝ) 1, panEval a b c d p t = 0 → t = panValue a b c d p := by
+    intro p hp
+    obtain ⟨x, hx, hxI, hfx, hu⟩ := axis_unique_root a b c d s hs hD1 hD2 hD3 hD4 hax p hp
+    have : panValue a b c d p = x := by simp [panValue, hx]
+    rw [this]
+    exact ⟨hx, hxI, hfx, hu⟩
+  refine ⟨?_, fun p hp => ⟨(key p hp).1, (key p hp).2.1⟩⟩
+  exact continuousOn_of_unique_zero _ (panEval a b c d) (continuous_panEval a b c d) _
+    (fun p hp => ⟨(key p hp).2.1, (key p hp).2.2.1⟩) (fun p hp => (key p hp).2.2.2)
+
+theorem cornerCone_rot (a b c d : Vec3 ℝ) : cornerCone b c d a = cornerCone a b c d := by
+  ext p
+  simp only [cornerCone, mem_ofPred_eq]
+  constructor
+  · rintro ⟨hp, gb, gc, gd, ga, hb, hc, hd, ha, rfl⟩
+    exact ⟨hp, ga, gb, gc, gd, ha, hb, hc, hd, comb4_rot ga gb gc gd a b c d⟩
+  · rintro ⟨hp, ga, gb, gc, gd, ha, hb, hc, hd, rfl⟩
+    exact ⟨hp, gb, gc, gd, ga, hb, hc, hd, ha, (comb4_rot ga gb gc gd a b c d).symm⟩
+
+/-- the normalised bilinear gain number `k` (in corner order) for pan values `x`, `y` -/
+noncomputable def bilGain (k : Nat) (x y : ℝ) : ℝ :=
+  (QuadRegion.weights x y).getD k 0 / Real.sqrt (sumsq (QuadRegion.weights x y))
+
+theorem sumsq_weights_pos (x y : ℝ) (hx : x ∈ Icc (0 : ℝ) 1) (hy : y ∈ Icc (0 : ℝ) 1) :
+    0 < sumsq (QuadRegion.weights x y) := by
+  obtain ⟨hx0, hx1⟩ := hx
+  obtain ⟨hy0, hy1⟩ := hy
+  simp only [QuadRegion.weights, sumsq, one_real, zero_real, add_zero]
+  -- the four weights are non-negative and add up to 1
+  have h1 : 0 ≤ (1 - x) * (1 - y) := mul_nonneg (by linarith) (by linarith)
+  have h2 : 0 ≤ x * (1 - y) := mul_nonneg hx0 (by linarith)
+  have h3 : 0 ≤ x * y := mul_nonneg hx0 hy0
+  have h4 : 0 ≤ (1 - x) * y := mul_nonneg (by linarith) hy0
+  have hsum : (1 - x) * (1 - y) + x * (1 - y) + x * y + (1 - x) * y = 1 := by ring
+  nlinarith [mul_self_nonneg ((1 - x) * (1 - y)), mul_self_nonneg (x * (1 - y)), mul_self_nonneg (x * y),
+    mul_self_nonneg ((1 - x) * y), mul_self_nonneg ((1 - x) * (1 - y) + x * (1 - y) + x * y + (1 - x) * y)]
+
+/-- **THE BILINEAR QUAD ON THE CONE OF ITS CORNERS** (ordered corners `a b c d` with the sign certificate `QuadSigns`,
+    closed-form root selection `GainCalc.quadRoot`): both pan values are found, lie in `[0, 1]` and are continuous functions
+    of the direction, hence so are the four normalised bilinear gains; and the handler's final sign test passes.
+    PARTIAL: the quad's acceptance set under the code's tolerances (roots in `(−1e-10, 1+1e-10)`, strict sign test) is
+    larger than the corner cone and not closed, so this is continuity on the cone only — enough to know that the quad has no
+    jump INSIDE its own cell; the pasting with its neighbours is not proved. -/
+theorem quad_cone_continuousOn_partial (a b c d : Vec3 ℝ) (hsig : QuadSigns a b c d) :
+    ContinuousOn (panValue a b c d) (cornerCone a b c d) ∧ ContinuousOn (panValue b c d a) (cornerCone a b c d) ∧
+    (∀ k, ContinuousOn (fun p => bilGain k (panValue a b c d p) (panValue b c d a p)) (cornerCone a b c d)) ∧
+    (∀ p ∈ cornerCone a b c d,
+      GainCalc.quadRoot (QuadRegion.panPoly a b c d p) = some (panValue a b c d p) ∧
+      GainCalc.quadRoot (QuadRegion.panPoly b c d a p) = some (panValue b c d a p) ∧
+      panValue a b c d p ∈ Icc (0 : ℝ) 1 ∧ panValue b c d a p ∈ Icc (0 : ℝ) 1) := by
+  obtain ⟨s, s', hs, hD1, hD2, hD3, hD4, _, _, _, _, hax, hay⟩ := hsig
+  obtain ⟨cx, kx⟩ := panValue_continuousOn a b c d s hs hD1 hD2 hD3 hD4 hax
+  obtain ⟨cy, ky⟩ := panValue_continuousOn b c d a s hs hD4 (by rw [det3_rot a b c]; exact hD1)
+    (by rw [det3_rot a b d]; exact hD2) (by rw [det3_rot a c d]; exact hD3) hay
+  rw [cornerCone_rot] at cy ky
+  refine ⟨cx, cy, ?_, fun p hp => ⟨(kx p hp).1, (ky p hp).1, (kx p hp).2, (ky p hp).2⟩⟩
+  intro k
+  unfold bilGain
+  have hw : ∀ j, ContinuousOn (fun p => (QuadRegion.weights (panValue a b c d p) (panValue b c d a p)).getD j 0)
+      (cornerCone a b c d) := by
+    intro j
+    simp only [QuadRegion.weights, one_real]
+    have c1 : ContinuousOn (fun p => 1 - panValue a b c d p) (cornerCone a b c d) := continuousOn_const.sub cx
+    have c2 : ContinuousOn (fun p => 1 - panValue b c d a p) (cornerCone a b c d) := continuousOn_const.sub cy
+    match j with
+    | 0 => simp only [List.getD_cons_zero]; exact c1.mul c2
+    | 1 => simp only [List.getD_cons_succ, List.getD_cons_zero]; exact cx.mul c2
+    | 2 => simp only [List.getD_cons_succ, List.getD_cons_zero]; exact cx.mul cy
+    | 3 => simp only [List.getD_cons_succ, List.getD_cons_zero]; exact c1.mul cy
+    | n + 4 => simp only [List.getD_cons_succ, List.getD_nil]; exact continuousOn_const
+  have hss : ContinuousOn (fun p => sumsq (QuadRegion.weights (panValue a b c d p) (panValue b c d a p)))
+      (cornerCone a b c d) :=
+    continuousOn_sumsq _ 4 _ (fun p => by simp [QuadRegion.weights]) hw
+  refine (hw k).div (Real.continuous_sqrt.comp_continuousOn hss) ?_
+  intro p hp
+  exact (Real.sqrt_pos.mpr (sumsq_weights_pos _ _ (kx p hp).2 (ky p hp).2)).ne'
+
+theorem posCone_subset {o : List Nat} (ho : isPermOfRange o 4 = true) (q0 q1 q2 q3 : Vec3 ℝ) :
+    cornerCone q0 q1 q2 q3 ⊆ cornerCone ([q0, q1, q2, q3].getD (o.getD 0 0) zero3) ([q0, q1, q2, q3].getD (o.getD 1 0) zero3)
+      ([q0, q1, q2, q3].getD (o.getD 2 0) zero3) ([q0, q1, q2, q3].getD (o.getD 3 0) zero3) := by
+  rintro p ⟨hp, g0, g1, g2, g3, h0, h1, h2, h3, rfl⟩
+  exact ⟨hp, _, _, _, _, getD_nonneg g0 g1 g2 g3 h0 h1 h2 h3 _, getD_nonneg g0 g1 g2 g3 h0 h1 h2 h3 _,
+    getD_nonneg g0 g1 g2 g3 h0 h1 h2 h3 _, getD_nonneg g0 g1 g2 g3 h0 h1 h2 h3 _, cone_reorder ho q0 q1 q2 q3 g0 g1 g2 g3⟩
+
+/-- **`QuadRegion.handle` WITH `quadRoot` IS CONTINUOUS ON THE CONE OF ITS CORNERS** (PARTIAL, see
+    `quad_cone_continuousOn_partial`): positions `q0 q1 q2 q3`, vertex order `o` a permutation, ordered corners with the
+    sign certificate.  On the cone of non-negative combinations of the four positions (origin removed) the handler returns
+    a result, and every output coordinate is a continuous function of the direction. -/
+theorem quad_handle_continuousOn_cone_partial (q0 q1 q2 q3 : Vec3 ℝ) (o : List Nat) (ho : isPermOfRange o 4 = true)
+    (hsig : QuadSigns ([q0, q1, q2, q3].getD (o.getD 0 0) zero3) ([q0, q1, q2, q3].getD (o.getD 1 0) zero3)
+      ([q0, q1, q2, q3].getD (o.getD 2 0) zero3) ([q0, q1, q2, q3].getD (o.getD 3 0) zero3)) (j : Nat) :
+    let q : QuadRegion ℝ := ⟨[q0, q1, q2, q3], o⟩
+    (∀ p ∈ cornerCone q0 q1 q2 q3, q.handle (GainCalc.quadRoot (q.polys p).1) (GainCalc.quadRoot (q.polys p).2) p ≠ none) ∧
+    ContinuousOn (fun p => ((q.handle (GainCalc.quadRoot (q.polys p).1) (GainCalc.quadRoot (q.polys p).2) p).map
+      (·.getD j 0)).getD 0) (cornerCone q0 q1 q2 q3) := by
+  intro q
+  set a := [q0, q1, q2, q3].getD (o.getD 0 0) zero3 with ha
+  set b := [q0, q1, q2, q3].getD (o.getD 1 0) zero3 with hb
+  set c := [q0, q1, q2, q3].getD (o.getD 2 0) zero3 with hc
+  set d := [q0, q1, q2, q3].getD (o.getD 3 0) zero3 with hd
+  obtain ⟨cx, cy, cg, hroots⟩ := quad_cone_continuousOn_partial a b c d hsig
+  have hsub := posCone_subset ho q0 q1 q2 q3
+  have hacc : ∀ p ∈ cornerCone q0 q1 q2 q3,
+      q.handle (GainCalc.quadRoot (q.polys p).1) (GainCalc.quadRoot (q.polys p).2) p ≠ none := by
+    rintro p ⟨hp, g0, g1, g2, g3, h0, h1, h2, h3, hpe⟩
+    exact quad_accepts q0 q1 q2 q3 o ho hsig g0 g1 g2 g3 p h0 h1 h2 h3 hp hpe
+  refine ⟨hacc, ?_⟩
+  have hnd : o.Nodup := by
+    simp only [isPermOfRange, Bool.and_eq_true] at ho
+    exact Faces.allDistinct_nodup ho.2
+  have hlen : o.length = 4 := by
+    simp only [isPermOfRange, Bool.and_eq_true, beq_iff_eq] at ho
+    exact ho.1.1
+  have hval : ∀ p ∈ cornerCone q0 q1 q2 q3,
+      ((q.handle (GainCalc.quadRoot (q.polys p).1) (GainCalc.quadRoot (q.polys p).2) p).map (·.getD j 0)).getD 0 =
+        if j ∈ o ∧ j < 4 then bilGain (o.idxOf j) (panValue a b c d p) (panValue b c d a p) else 0 := by
+    intro p hp
+    obtain ⟨rx, ry, _, _⟩ := hroots p (hsub hp)
+    have hpx : (q.polys p).1 = QuadRegion.panPoly a b c d p := rfl
+    have hpy : (q.polys p).2 = QuadRegion.panPoly b c d a p := rfl
+    have hne := hacc p hp
+    rw [hpx, hpy, rx, ry] at hne ⊢
+    obtain ⟨out, hout⟩ := Option.ne_none_iff_exists'.mp hne
+    rw [hout, quad_out_eq q p _ _ out ho hout]
+    simp only [Option.map_some, Option.getD_some]
+    rw [scatter_zeros_getD 4 o _ hnd (by simp [QuadRegion.weights, hlen]) j]
+    by_cases hj : j ∈ o ∧ j < 4
+    · simp only [hj, and_self, if_true, bilGain]
+      simp only [List.getD_eq_getElem?_getD, List.getElem?_map]
+      cases (QuadRegion.weights (panValue a b c d p) (panValue b c d a p))[o.idxOf j]? with
+      | none => simp
+      | some v => simp
+    · simp only [hj, if_false]
+  refine ContinuousOn.congr ?_ hval
+  by_cases hj : j ∈ o ∧ j < 4
+  · simp only [hj, and_self, if_true]
+    exact (cg (o.idxOf j)).mono hsub
+  · simp only [hj, if_false]
+    exact continuousOn_const
+
+/-- **EVERY QUADREGION OF THE TEN NOMINAL LAYOUTS, with the closed-form root selection, is continuous on the cone of its
+    corners** (instance of `quad_handle_continuousOn_cone_partial`; the sign certificate is `quad_tables_ok`). -/
+theorem tables_quad_continuousOn_cone_partial (l : RawLayout) (hl : l ∈ Earverif.Gen.C05.layouts) (r : RawRegion)
+    (hr : r ∈ l.regions) (hk : r.kind = 2) (q0 q1 q2 q3 : P3) (hpos : r.pos = [q0, q1, q2, q3]) (j : Nat) :
+    let q : QuadRegion ℝ := ⟨r.pos.map p3, r.order⟩
+    ContinuousOn (fun p => ((q.handle (GainCalc.quadRoot (q.polys p).1) (GainCalc.quadRoot (q.polys p).2) p).map
+      (·.getD j 0)).getD 0) (cornerCone (p3 q0) (p3 q1) (p3 q2) (p3 q3)) := by
+  have h := quad_tables_ok
+  unfold quadTablesOk at h
+  rw [List.all_eq_true] at h
+  have h2 := h l hl
+  rw [List.all_eq_true] at h2
+  obtain ⟨hperm, hsig⟩ := quadRegionOk_sound _ r hk (h2 r hr) q0 q1 q2 q3 hpos
+  have := (quad_handle_continuousOn_cone_partial (p3 q0) (p3 q1) (p3 q2) (p3 q3) r.order hperm hsig j).2
+  simpa [hpos] using this
+
+end QuadCone
+
+/-! ### non-vacuity of the hypotheses of the new theorems -/
+
+/-- for Triplet regions the outer-face relation is the shared-face relation -/
+theorem outer_of_meet_triplets (X Y : TRegion) (h : MeetInSharedFace X Y) :
+    MeetInOuterFace (Region.triplet X.1 X.2) X (Region.triplet Y.1 Y.2) Y := by
+  intro p hp ha ha'
+  obtain ⟨i, j, i', j', s, t, hij, hij', hs, ht, hpe, hri, hci, hj⟩ := h p hp ha ha'
+  refine ⟨i, j, i', j', s, t, chanAt X.1 i, chanAt X.1 j, chanAt Y.1 j', hij, hij', hs, ht, hpe, hri, rfl, ?_, rfl, rfl, ?_⟩
+  · simp only [Region.gchan, hci]
+  · rcases hj with h0 | ⟨hrj, hcj⟩
+    · exact Or.inl h0
+    · exact Or.inr ⟨hrj, hcj⟩
+
+/-- a two-region panner (the standard basis triplet and its mirror image, channels 0 1 2 / 0 1 3) satisfying every
+    hypothesis of `panner_continuousOn_tri_ngon_partial`; for VirtualNgon regions the hypotheses are met by every n-gon of
+    the ten regenerated tables (`Faces.ngon_table`, used by `tables_ngon_continuousOn`) -/
+example : let regions : List (Region ℝ) := [Region.triplet [0, 1, 2] exP, Region.triplet [0, 1, 3] exQ]
+    (∀ R ∈ regions, R.tnOk) ∧
+      (∀ R ∈ regions, ∀ R' ∈ regions, R ≠ R' → ∀ X ∈ R.tcells, ∀ Y ∈ R'.tcells, MeetInOuterFace R X R' Y) := by
+  intro regions
+  refine ⟨?_, ?_⟩
+  · intro R hR
+    simp only [regions, List.mem_cons, List.mem_nil_iff, or_false] at hR
+    rcases hR with rfl | rfl
+    · exact ⟨by norm_num [det3, exP], 0, 1, 2, rfl, by decide, by decide, by decide⟩
+    · exact ⟨by norm_num [det3, exQ], 0, 1, 3, rfl, by decide, by decide, by decide⟩
+  · intro R hR R' hR' hne X hX Y hY
+    simp only [regions, List.mem_cons, List.mem_nil_iff, or_false] at hR hR'
+    rcases hR with rfl | rfl <;> rcases hR' with rfl | rfl
+    · exact absurd rfl hne
+    · simp only [Region.tcells, List.mem_singleton] at hX hY
+      subst hX hY
+      exact outer_of_meet_triplets _ _ ex_meet.1
+    · simp only [Region.tcells, List.mem_singleton] at hX hY
+      subst hX hY
+      exact outer_of_meet_triplets _ _ ex_meet.2
+    · exact absurd rfl hne
+
+/-- the data of the quantitative bound for the standard basis triplet and its mirror image: plane `z = 0`, the third rows
+    are `far`, `κ = 2`, `α = 1` (on the regenerated tables the data come from the certificate: `tables_triplet_pair`) -/
+example : PairData ([0, 1, 2], exP) ([0, 1, 3], exQ) 1 2 := by
+  refine ⟨by norm_num [det3, exP], by norm_num [det3, exQ], (0, 0, 1), id, fun j => j = 2, fun _ _ h => h, ?_, ?_, ?_, ?_, ?_, ?_⟩
+  · intro j hj
+    fin_cases j
+    · exact ⟨rfl, rfl⟩
+    · exact ⟨rfl, rfl⟩
+    · exact absurd rfl hj
+  · intro i; fin_cases i <;> norm_num [row, exP, dot3]
+  · intro j; fin_cases j <;> norm_num [row, exQ, dot3]
+  · intro j hj; subst hj; norm_num [row, exQ, dot3]
+  · intro j hj; subst hj
+    simp only [Fin.sum_univ_three]
+    norm_num [row, exP, exQ, dot3]
+  · intro j hj i; subst hj
+    rw [pv_exP]
+    fin_cases i <;> norm_num [row, exQ, coord]
+
+/-- every n-gon of the nominal tables: the virtual centre is a direction of its acceptance set -/
+example (l : RawLayout) (hl : l ∈ Earverif.Gen.C05.layouts) (r : RawRegion) (hr : r ∈ l.regions) (k1 : r.kind = 1)
+    (X : TRegion) (hX : X ∈ (Faces.ngonOf r).regions) : X.2.2.2 ∈ TRegion.cone X := by
+  obtain ⟨cert, _, hs⟩ := faces_spec_of_tables l hl
+  obtain ⟨k, hk⟩ := List.mem_iff_getElem?.mp hr
+  obtain ⟨_, h2, _, _, _, _, _⟩ := Faces.ngon_table hs hk k1
+  have hd := h2 X hX
+  have e0 := pv_row X.2 hd 2 0
+  have e1 := pv_row X.2 hd 2 1
+  have e2 := pv_row X.2 hd 2 2
+  simp only [row, coord] at e0 e1 e2
+  refine ⟨⟨by rw [e0]; simp, by rw [e1]; simp, by rw [e2]; simp⟩, ?_⟩
+  intro h0
+  apply hd
+  obtain ⟨ch, a, b, c⟩ := X
+  simp only at h0
+  subst h0
+  simp [det3]
+
 /-! ### non-vacuity -/
 
 example : cross3 ((1 : ℝ), 0, 0) (0, 1, 0) ≠ (0, 0, 0) := by norm_num [cross3]
@@ -1357,13 +1186,23 @@ theorem C12_partial :
     (type_of% @quad_accept_isOpen_of_roots) ∧ (type_of% @tripletPannerE_eps) ∧ (type_of% @shared_face_agreement) ∧
     (type_of% @panner_continuousOn_triplets_partial) ∧ (type_of% @triplet_sliver_bound_general) ∧
     (type_of% @triplet_sliver_bound) ∧ (type_of% @panner_jump_bound_of_regions) ∧
-    (type_of% @two_triplet_panner_jump_bound) :=
+    (type_of% @two_triplet_panner_jump_bound) ∧ (type_of% @ngon_handleE_eps) ∧ (type_of% @ngon_handle_continuousOn) ∧
+    (type_of% @pannerTNE_eps) ∧ (type_of% @panner_continuousOn_tri_ngon_partial) ∧ (type_of% @pair_gain_bound) ∧
+    (type_of% @pair_out_bound) ∧ (type_of% @panner_jump_bound_triplets) ∧ (type_of% @faces_tables_ok) ∧
+    (type_of% @tables_triplet_pairs_meet_in_faces) ∧ (type_of% @tables_triplet_panner_continuousOn) ∧
+    (type_of% @tables_triplet_panner_jump_bound) ∧ (type_of% @tables_ngon_continuousOn) ∧
+    (type_of% @quad_cone_continuousOn_partial) ∧ (type_of% @quad_handle_continuousOn_cone_partial) ∧
+    (type_of% @tables_quad_continuousOn_cone_partial) :=
   ⟨@edge_unique, @edge_exists, @triplet_on_edge, @edge_agreement, @triplet_continuousOn,
     @triplet_handle_continuousOn, @stereo_continuousOn, @downmix_continuousOn, @quad_on_edge, @quad_edge_agreement,
     @quad_edge_agreement', @ngon_candidate_on_edge, @ngon_on_edge, @firstAccept_eq_of_agree,
     @firstAccept_continuousOn, @firstAccept_jump_bound, @panner_continuousOn_of_regions, @triplet_accept_isClosed,
     @triplet_accept_isClosed_code, @ngon_accept_isClosed, @quad_accept_isOpen_of_roots, @tripletPannerE_eps,
     @shared_face_agreement, @panner_continuousOn_triplets_partial, @triplet_sliver_bound_general,
-    @triplet_sliver_bound, @panner_jump_bound_of_regions, @two_triplet_panner_jump_bound⟩
+    @triplet_sliver_bound, @panner_jump_bound_of_regions, @two_triplet_panner_jump_bound, @ngon_handleE_eps,
+    @ngon_handle_continuousOn, @pannerTNE_eps, @panner_continuousOn_tri_ngon_partial, @pair_gain_bound, @pair_out_bound,
+    @panner_jump_bound_triplets, @faces_tables_ok, @tables_triplet_pairs_meet_in_faces,
+    @tables_triplet_panner_continuousOn, @tables_triplet_panner_jump_bound, @tables_ngon_continuousOn,
+    @quad_cone_continuousOn_partial, @quad_handle_continuousOn_cone_partial, @tables_quad_continuousOn_cone_partial⟩
 
 end Earverif.PointSource
